@@ -6,8 +6,12 @@
 import EtVerif.Model.Frontends
 import EtVerif.Model.Grpc
 import EtVerif.Props.C05
+import EtVerif.Proofs.Vec
+import EtVerif.Proofs.Matrix    -- also shares the auxiliary lemmas `fun_induction mergeRows/mergeSpan` generate
+import EtVerif.Proofs.Distrust  -- likewise for `discountLoop`
 import Mathlib.Data.List.Basic
 import Mathlib.Data.List.Forall2
+import Mathlib.Data.List.TakeWhile
 
 namespace EtVerif.FeL
 open EtVerif EtVerif.Fe Scalar
@@ -463,7 +467,7 @@ theorem loadM_go_spec (raw : Bool) (recs : List (Record α)) (skip : Bool) (tbl 
                       | none => rw [hf] at h; simp only [reduceCtorEq] at h
                       | some v =>
                         rw [hf] at h
-                        exact ⟨v, Or.inr ⟨f2, rfl, rfl⟩, h⟩
+                        exact ⟨v, Or.inr ⟨f2, rfl, hf⟩, h⟩
                   obtain ⟨v, hv, h⟩ := key
                   · obtain ⟨a, b, es, c1, c2, c3, c4⟩ := ih false tbl2 _ _ h
                     obtain ⟨e0, i0⟩ := getPeerIndex_spec hg0 hneg0
@@ -489,5 +493,2694 @@ theorem loadM_go_spec (raw : Bool) (recs : List (Record α)) (skip : Bool) (tbl 
                     · rw [c2]; simp
                     · rw [c3]; rfl
         · cases h
+
+/-- everything a successful run of the vector loader loop implies -/
+theorem loadV_go_spec (raw : Bool) (recs : List (Record α)) (skip : Bool) (tbl : NameTable)
+    (size : Int) (acc : List (Int × α)) (m : Oapi.IVector α) (tbl' : NameTable)
+    (h : cliLoadVector.go raw recs skip tbl size acc = some (m, tbl')) :
+    (∀ r ∈ recs, 1 ≤ r.length ∧ r.length ≤ 2) ∧
+    tbl' = tblAfter raw tbl (vNames (dataRecs skip recs)) ∧
+    ∃ es, List.Forall₂ (VRel raw tbl') (dataRecs skip recs) es ∧ m.entries = acc.reverse ++ es ∧
+      m.size = es.foldl (fun s e => max s (e.1 + 1)) size ∧ m.size ≠ 0 := by
+  induction recs generalizing skip tbl size acc with
+  | nil =>
+    unfold cliLoadVector.go at h
+    split at h
+    · cases h
+    · rename_i hs
+      simp only [Option.some.injEq, Prod.mk.injEq] at h
+      obtain ⟨h1, h2⟩ := h
+      subst h1 h2
+      refine ⟨by simp, ?_, [], ?_, by simp, rfl, hs⟩
+      · cases skip <;> simp [dataRecs, vNames, tblAfter_nil]
+      · cases skip <;> exact List.Forall₂.nil
+  | cons r rs ih =>
+    unfold cliLoadVector.go at h
+    split at h
+    · cases h
+    · rename_i hlen
+      have hlen' : 1 ≤ r.length ∧ r.length ≤ 2 := by
+        simp only [Bool.or_eq_true, decide_eq_true_eq, not_or] at hlen; omega
+      split at h
+      · rename_i hskip
+        subst hskip
+        obtain ⟨a, b, c⟩ := ih false tbl size acc h
+        refine ⟨?_, ?_, ?_⟩
+        · intro x hx
+          rcases List.mem_cons.mp hx with rfl | hx
+          · exact hlen'
+          · exact a x hx
+        · rw [dataRecs_cons_true]; rw [dataRecs_false] at b; exact b
+        · rw [dataRecs_cons_true]; rw [dataRecs_false] at c; exact c
+      · rename_i hskip
+        have hskip : skip = false := by simpa using hskip
+        subst hskip
+        split at h
+        · rename_i f0 rest
+          split at h
+          · cases h
+          · rename_i from_ tbl1 hg0
+            split at h
+            · cases h
+            · rename_i hneg0
+              have key : ∃ v, ((rest = [] ∧ v = one) ∨ ∃ f1, rest = [f1] ∧ f1.float = some v) ∧
+                  lt v zero = false ∧
+                  cliLoadVector.go raw rs false tbl1 (max size (from_ + 1))
+                    ((from_, v) :: acc) = some (m, tbl') := by
+                cases rest with
+                | nil =>
+                  simp only at h
+                  split at h
+                  · cases h
+                  · rename_i hlt
+                    exact ⟨one, Or.inl ⟨rfl, rfl⟩, by simpa using hlt, h⟩
+                | cons f1 rest' =>
+                  have hr : rest' = [] := by
+                    simp only [List.length_cons] at hlen'
+                    exact List.length_eq_zero_iff.mp (by omega)
+                  subst hr
+                  simp only at h
+                  cases hf : f1.float with
+                  | none => rw [hf] at h; simp only [reduceCtorEq] at h
+                  | some v =>
+                    rw [hf] at h
+                    simp only at h
+                    split at h
+                    · cases h
+                    · rename_i hlt
+                      exact ⟨v, Or.inr ⟨f1, rfl, hf⟩, by simpa using hlt, h⟩
+              obtain ⟨v, hv, hlt, h⟩ := key
+              obtain ⟨a, b, es, c1, c2, c3, c4⟩ := ih false tbl1 _ _ h
+              obtain ⟨e0, i0⟩ := getPeerIndex_spec hg0 hneg0
+              rw [dataRecs_false] at b c1
+              have htbl : tbl' = tblAfter raw tbl
+                  (vNames (dataRecs false ((f0 :: rest) :: rs))) := by
+                rw [dataRecs_false, vNames_cons1, tblAfter_append, ← e0]
+                exact b
+              have hp1 : tbl1 <+: tbl' := by rw [b]; exact tblAfter_prefix _ _ _
+              refine ⟨?_, htbl, (from_, v) :: es, ?_, ?_, ?_, c4⟩
+              · intro x hx
+                rcases List.mem_cons.mp hx with rfl | hx
+                · exact hlen'
+                · exact a x hx
+              · rw [dataRecs_false]
+                exact List.Forall₂.cons ⟨f0, rest, rfl, i0.mono hp1, hlt, hv⟩ c1
+              · rw [c2]; simp
+              · rw [c3]; rfl
+        · cases h
+
+/-- the complete outcome of a successful `cliLoadMatrix` -/
+theorem cliLoadMatrix_spec {raw hasHeader : Bool} {recs : List (Record α)} {tbl tbl' : NameTable}
+    {m : Oapi.IMatrix α} (h : cliLoadMatrix raw hasHeader recs tbl = some (m, tbl')) :
+    (∀ r ∈ recs, 2 ≤ r.length ∧ r.length ≤ 3) ∧
+    tbl' = tblAfter raw tbl (mNames (dataRecs hasHeader recs)) ∧
+    List.Forall₂ (MRel raw tbl') (dataRecs hasHeader recs) m.entries ∧
+    m.size = m.entries.foldl (fun s e => max s (max (e.1 + 1) (e.2.1 + 1))) 0 ∧ m.size ≠ 0 := by
+  obtain ⟨a, b, es, c1, c2, c3, c4⟩ := loadM_go_spec raw recs hasHeader tbl 0 [] m tbl' h
+  simp only [List.reverse_nil, List.nil_append] at c2
+  subst c2
+  exact ⟨a, b, c1, c3, c4⟩
+
+theorem cliLoadVector_spec {raw hasHeader : Bool} {recs : List (Record α)} {tbl tbl' : NameTable}
+    {m : Oapi.IVector α} (h : cliLoadVector raw hasHeader recs tbl = some (m, tbl')) :
+    (∀ r ∈ recs, 1 ≤ r.length ∧ r.length ≤ 2) ∧
+    tbl' = tblAfter raw tbl (vNames (dataRecs hasHeader recs)) ∧
+    List.Forall₂ (VRel raw tbl') (dataRecs hasHeader recs) m.entries ∧
+    m.size = m.entries.foldl (fun s e => max s (e.1 + 1)) 0 ∧ m.size ≠ 0 := by
+  obtain ⟨a, b, es, c1, c2, c3, c4⟩ := loadV_go_spec raw recs hasHeader tbl 0 [] m tbl' h
+  simp only [List.reverse_nil, List.nil_append] at c2
+  subst c2
+  exact ⟨a, b, c1, c3, c4⟩
+
+/-- optional vector file: the loader is run only when a file is given -/
+def loadOptV (raw hasHeader : Bool) (o : Option (List (Record α))) (tbl : NameTable) :
+    Option (Option (Oapi.IVector α) × NameTable) :=
+  match o with
+  | none => some (none, tbl)
+  | some recs => (cliLoadVector raw hasHeader recs tbl).map fun (v, t) => (some v, t)
+
+theorem cliBuildRequest_eq (raw hasHeader : Bool) (lt : List (Record α))
+    (pt it : Option (List (Record α))) :
+    cliBuildRequest raw hasHeader lt pt it =
+      match cliLoadMatrix raw hasHeader lt [] with
+      | none => none
+      | some (m, t1) =>
+        match loadOptV raw hasHeader pt t1 with
+        | none => none
+        | some (pv, t2) =>
+          match loadOptV raw hasHeader it t2 with
+          | none => none
+          | some (iv, t3) => some ⟨m, pv, iv, t3⟩ := by
+  unfold cliBuildRequest loadOptV
+  cases cliLoadMatrix raw hasHeader lt [] with
+  | none => rfl
+  | some x =>
+    obtain ⟨m, t1⟩ := x
+    cases pt <;> cases it <;> rfl
+
+theorem cliBuildRequest_inv {raw hasHeader : Bool} {lt : List (Record α)}
+    {pt it : Option (List (Record α))} {req : CliRequest α}
+    (h : cliBuildRequest raw hasHeader lt pt it = some req) :
+    ∃ t1 t2, cliLoadMatrix raw hasHeader lt [] = some (req.localTrust, t1) ∧
+      loadOptV raw hasHeader pt t1 = some (req.preTrust, t2) ∧
+      loadOptV raw hasHeader it t2 = some (req.initialTrust, req.peerIds) := by
+  rw [cliBuildRequest_eq] at h
+  split at h
+  · cases h
+  · rename_i m t1 h1
+    split at h
+    · cases h
+    · rename_i pv t2 h2
+      split at h
+      · cases h
+      · rename_i iv t3 h3
+        cases h
+        exact ⟨t1, t2, h1, h2, h3⟩
+
+theorem loadOptV_spec {raw hasHeader : Bool} {o : Option (List (Record α))} {tbl tbl' : NameTable}
+    {ov : Option (Oapi.IVector α)} (h : loadOptV raw hasHeader o tbl = some (ov, tbl')) :
+    (o = none ∧ ov = none ∧ tbl' = tbl) ∨
+    ∃ recs v, o = some recs ∧ ov = some v ∧ cliLoadVector raw hasHeader recs tbl = some (v, tbl') := by
+  unfold loadOptV at h
+  cases o with
+  | none =>
+    simp only [Option.some.injEq, Prod.mk.injEq] at h
+    exact Or.inl ⟨rfl, h.1.symm, h.2.symm⟩
+  | some recs =>
+    right
+    simp only at h
+    cases hl : cliLoadVector raw hasHeader recs tbl with
+    | none => rw [hl] at h; cases h
+    | some x =>
+      obtain ⟨v, t⟩ := x
+      rw [hl] at h
+      simp only [Option.map_some, Option.some.injEq, Prod.mk.injEq] at h
+      obtain ⟨h1, h2⟩ := h
+      subst h1 h2
+      exact ⟨recs, v, rfl, rfl, hl⟩
+
+/-- the name stream of an optional vector file -/
+def optVNames (hasHeader : Bool) (o : Option (List (Record α))) : List String :=
+  match o with
+  | none => []
+  | some recs => vNames (dataRecs hasHeader recs)
+
+theorem loadOptV_tbl {raw hasHeader : Bool} {o : Option (List (Record α))} {tbl tbl' : NameTable}
+    {ov : Option (Oapi.IVector α)} (h : loadOptV raw hasHeader o tbl = some (ov, tbl')) :
+    tbl' = tblAfter raw tbl (optVNames hasHeader o) := by
+  rcases loadOptV_spec h with ⟨rfl, _, rfl⟩ | ⟨recs, v, rfl, _, hl⟩
+  · exact (tblAfter_nil _ _).symm
+  · exact (cliLoadVector_spec hl).2.1
+
+/-! ### the library CSV readers -/
+
+/-- first field of a record (`""` for an empty record) -/
+def firstName : Record α → String
+  | [] => ""
+  | f :: _ => f.raw
+
+/-- `ReadPeerNamesFromCsv` with an accumulator -/
+theorem readPeerNames_acc (recs : List (Record α)) (acc : List String) (ns : List String) :
+    readPeerNames recs acc = some ns ↔
+      (∀ r ∈ recs, r ≠ []) ∧ ns = acc.reverse ++ recs.map firstName ∧
+      (recs.map firstName).Nodup ∧ ∀ n ∈ recs.map firstName, n ∉ acc := by
+  induction recs generalizing acc with
+  | nil =>
+    unfold readPeerNames
+    simp only [Option.some.injEq, List.not_mem_nil, false_imp_iff, implies_true, List.map_nil,
+      List.append_nil, List.nodup_nil, true_and, and_true]
+    exact eq_comm
+  | cons r rs ih =>
+    unfold readPeerNames
+    cases r with
+    | nil => simp
+    | cons f rest =>
+      simp only [List.contains_eq_mem, decide_eq_true_eq]
+      by_cases hf : f.raw ∈ acc
+      · rw [if_pos hf]
+        simp only [reduceCtorEq, false_iff, not_and]
+        intro _ _ _ h
+        exact h f.raw (by simp [firstName]) hf
+      · rw [if_neg hf, ih]
+        have e1 : ((f :: rest) :: rs).map firstName = f.raw :: rs.map firstName := rfl
+        have e2 : (f.raw :: acc).reverse ++ rs.map firstName =
+            acc.reverse ++ (f.raw :: rs.map firstName) := by simp
+        rw [e1, e2, List.nodup_cons]
+        constructor
+        · rintro ⟨h1, h2, h3, h4⟩
+          refine ⟨?_, h2, ⟨?_, h3⟩, ?_⟩
+          · intro r hr
+            rcases List.mem_cons.mp hr with rfl | hr
+            · simp
+            · exact h1 r hr
+          · intro hm
+            exact h4 _ hm (by simp)
+          · intro n hn
+            rcases List.mem_cons.mp hn with rfl | hn
+            · exact hf
+            · intro hna
+              exact h4 n hn (by simp [hna])
+        · rintro ⟨h1, h2, ⟨h3, h3'⟩, h4⟩
+          refine ⟨fun r hr => h1 r (by simp [hr]), h2, h3', ?_⟩
+          intro n hn hna
+          rcases List.mem_cons.mp hna with rfl | hna
+          · exact h3 hn
+          · exact h4 n (by simp [hn]) hna
+
+/-- the first occurrence is never later than a position holding the value -/
+theorem idxOf_le_of_getElem? {l : List String} {a : String} {j : Nat} (h : l[j]? = some a) :
+    l.idxOf a ≤ j := by
+  induction l generalizing j with
+  | nil => simp at h
+  | cons b l ih =>
+    by_cases hb : b = a
+    · rw [List.idxOf_cons_eq _ hb]; exact Nat.zero_le _
+    · cases j with
+      | zero =>
+        simp only [List.getElem?_cons_zero, Option.some.injEq] at h
+        exact absurd h hb
+      | succ j =>
+        have := ih (by simpa using h)
+        rw [List.idxOf_cons_ne _ hb]
+        omega
+
+/-- `ParsePeerId` by name: the first position of the name in the peer list -/
+theorem parsePeerId_names (ns : List String) (f : Fe.Field α) (i : Nat) :
+    parsePeerId (some ns) f = some i ↔
+      i < ns.length ∧ ns[i]? = some f.raw ∧ ∀ j, j < i → ns[j]? ≠ some f.raw := by
+  unfold parsePeerId
+  simp only
+  constructor
+  · intro h
+    split at h
+    · rename_i hlt
+      cases h
+      have hmem := List.idxOf_lt_length_iff.mp hlt
+      refine ⟨hlt, ?_, ?_⟩
+      · rw [List.getElem?_eq_getElem hlt, List.getElem_idxOf]
+      · intro j hj hj'
+        have := idxOf_le_of_getElem? hj'
+        omega
+    · cases h
+  · rintro ⟨h1, h2, h3⟩
+    have hmem : f.raw ∈ ns := List.mem_of_getElem? h2
+    have hlt := List.idxOf_lt_length_iff.mpr hmem
+    rw [if_pos hlt]
+    congr 1
+    have hget : ns[List.idxOf f.raw ns]? = some f.raw := by
+      rw [List.getElem?_eq_getElem hlt, List.getElem_idxOf]
+    rcases Nat.lt_trichotomy (List.idxOf f.raw ns) i with hc | hc | hc
+    · exact absurd hget (h3 _ hc)
+    · exact hc
+    · have := idxOf_le_of_getElem? h2
+      omega
+
+/-- `ParsePeerId` without a peer list: a non-negative integer literal -/
+theorem parsePeerId_none (f : Fe.Field α) (i : Nat) :
+    parsePeerId none f = some i ↔ ∃ z : Int, f.atoi = some z ∧ 0 ≤ z ∧ z.toNat = i := by
+  unfold parsePeerId
+  simp only
+  cases f.atoi with
+  | none => simp
+  | some z =>
+    simp only [Option.some.injEq, exists_eq_left']
+    split
+    · simp only [reduceCtorEq, false_iff, not_and]; omega
+    · simp only [Option.some.injEq]; omega
+
+/-- the per-record parser of `ReadLocalTrustFromCsv` -/
+def ltParse (names : Option (List String)) : Record α → Option (Coo α) := fun r =>
+  match r with
+  | f0 :: f1 :: rest =>
+    match parsePeerId names f0, parsePeerId names f1 with
+    | some i, some j =>
+      match rest with
+      | [] => some ⟨i, j, one⟩
+      | f2 :: _ => f2.float.map fun v => ⟨i, j, v⟩
+    | _, _ => none
+  | _ => none
+
+/-- the per-record parser of `ReadTrustVectorFromCsv` -/
+def tvParse (names : Option (List String)) : Record α → Option (Entry α) := fun r =>
+  match r with
+  | f0 :: rest =>
+    match parsePeerId names f0 with
+    | some i =>
+      match rest with
+      | [] => some ⟨i, one⟩
+      | f1 :: _ => f1.float.map fun v => ⟨i, v⟩
+    | none => none
+  | _ => none
+
+/-- highest index + 1 over the arcs (0 without arcs) -/
+def cooDim (coos : List (Coo α)) : Nat :=
+  coos.foldl (fun d e => max d (max (e.row + 1) (e.col + 1))) 0
+
+/-- highest index + 1 over the entries (0 without entries) -/
+def entDim (es : List (Entry α)) : Nat := es.foldl (fun d e => max d (e.idx + 1)) 0
+
+theorem readLocalTrust_eq (names : Option (List String)) (recs : List (Record α)) :
+    readLocalTrust names recs =
+      (recs.mapM (ltParse names)).map fun coos =>
+        CSM.newCSR (cooDim coos) (cooDim coos) coos false := by
+  unfold readLocalTrust
+  simp only
+  change (match recs.mapM (ltParse names) with | none => none | some coos => _) = _
+  cases recs.mapM (ltParse names) <;> rfl
+
+theorem readTrustVector_eq (names : Option (List String)) (recs : List (Record α)) :
+    readTrustVector names recs =
+      (recs.mapM (tvParse names)).map fun es => Vec.new (entDim es) es := by
+  unfold readTrustVector
+  simp only
+  change (match recs.mapM (tvParse names) with | none => none | some es => _) = _
+  cases recs.mapM (tvParse names) <;> rfl
+
+/-- record `r` of a local-trust CSV denotes the arc `c` (default level 1) -/
+def ArcOf (names : Option (List String)) (r : Record α) (c : Coo α) : Prop :=
+  ∃ f0 f1 rest, r = f0 :: f1 :: rest ∧ parsePeerId names f0 = some c.row ∧
+    parsePeerId names f1 = some c.col ∧
+    ((rest = [] ∧ c.val = one) ∨ ∃ f2 rest', rest = f2 :: rest' ∧ f2.float = some c.val)
+
+/-- record `r` of a trust-vector CSV denotes the entry `e` (default level 1) -/
+def EntOf (names : Option (List String)) (r : Record α) (e : Entry α) : Prop :=
+  ∃ f0 rest, r = f0 :: rest ∧ parsePeerId names f0 = some e.idx ∧
+    ((rest = [] ∧ e.val = one) ∨ ∃ f1 rest', rest = f1 :: rest' ∧ f1.float = some e.val)
+
+theorem ltParse_eq_some_iff (names : Option (List String)) (r : Record α) (c : Coo α) :
+    ltParse names r = some c ↔ ArcOf names r c := by
+  obtain ⟨ci, cj, cv⟩ := c
+  unfold ltParse ArcOf
+  constructor
+  · intro h
+    split at h
+    · rename_i f0 f1 rest
+      split at h
+      · rename_i i j h0 h1
+        split at h
+        · cases h
+          exact ⟨f0, f1, [], rfl, h0, h1, Or.inl ⟨rfl, rfl⟩⟩
+        · rename_i f2 rest'
+          cases hf : f2.float with
+          | none => rw [hf] at h; cases h
+          | some v =>
+            rw [hf] at h
+            cases h
+            exact ⟨f0, f1, f2 :: rest', rfl, h0, h1, Or.inr ⟨f2, rest', rfl, hf⟩⟩
+      · cases h
+    · cases h
+  · rintro ⟨f0, f1, rest, rfl, h0, h1, h2⟩
+    simp only at h0 h1 h2 ⊢
+    rw [h0, h1]
+    rcases h2 with ⟨rfl, rfl⟩ | ⟨f2, rest', rfl, hf⟩
+    · rfl
+    · simp only [hf]; rfl
+
+theorem tvParse_eq_some_iff (names : Option (List String)) (r : Record α) (e : Entry α) :
+    tvParse names r = some e ↔ EntOf names r e := by
+  obtain ⟨ei, ev⟩ := e
+  unfold tvParse EntOf
+  constructor
+  · intro h
+    split at h
+    · rename_i f0 rest
+      split at h
+      · rename_i i h0
+        split at h
+        · cases h
+          exact ⟨f0, [], rfl, h0, Or.inl ⟨rfl, rfl⟩⟩
+        · rename_i f1 rest'
+          cases hf : f1.float with
+          | none => rw [hf] at h; cases h
+          | some v =>
+            rw [hf] at h
+            cases h
+            exact ⟨f0, f1 :: rest', rfl, h0, Or.inr ⟨f1, rest', rfl, hf⟩⟩
+      · cases h
+    · cases h
+  · rintro ⟨f0, rest, rfl, h0, h2⟩
+    simp only at h0 h2 ⊢
+    rw [h0]
+    rcases h2 with ⟨rfl, rfl⟩ | ⟨f1, rest', rfl, hf⟩
+    · rfl
+    · simp only [hf]; rfl
+
+/-- a record is refused by the local-trust reader exactly in these cases -/
+theorem ltParse_eq_none_iff (names : Option (List String)) (r : Record α) :
+    ltParse names r = none ↔
+      r.length < 2 ∨ ∃ f0 f1 rest, r = f0 :: f1 :: rest ∧
+        (parsePeerId names f0 = none ∨ parsePeerId names f1 = none ∨
+          ∃ f2 rest', rest = f2 :: rest' ∧ f2.float = none) := by
+  unfold ltParse
+  cases r with
+  | nil => simp
+  | cons f0 r1 =>
+    cases r1 with
+    | nil => simp
+    | cons f1 rest =>
+      simp only [List.length_cons, List.cons.injEq]
+      have hl : ¬ (rest.length + 1 + 1 < 2) := by omega
+      simp only [hl, false_or]
+      cases h0 : parsePeerId names f0 with
+      | none => simp only [true_iff]; exact ⟨f0, f1, rest, ⟨rfl, rfl, rfl⟩, Or.inl h0⟩
+      | some i =>
+        cases h1 : parsePeerId names f1 with
+        | none => simp only [true_iff]; exact ⟨f0, f1, rest, ⟨rfl, rfl, rfl⟩, Or.inr (Or.inl h1)⟩
+        | some j =>
+          cases rest with
+          | nil =>
+            simp only [reduceCtorEq, false_iff]
+            rintro ⟨g0, g1, rest, ⟨rfl, rfl, rfl⟩, h | h | ⟨_, _, h, _⟩⟩
+            · rw [h0] at h; cases h
+            · rw [h1] at h; cases h
+            · cases h
+          | cons f2 rest' =>
+            simp only
+            constructor
+            · intro h
+              refine ⟨f0, f1, f2 :: rest', ⟨rfl, rfl, rfl⟩, Or.inr (Or.inr ⟨f2, rest', rfl, ?_⟩)⟩
+              cases hf : f2.float with
+              | none => rfl
+              | some v => rw [hf] at h; cases h
+            · rintro ⟨g0, g1, rest, ⟨rfl, rfl, rfl⟩, h | h | ⟨g2, _, h, hf⟩⟩
+              · rw [h0] at h; cases h
+              · rw [h1] at h; cases h
+              · cases h
+                rw [hf]; rfl
+
+theorem tvParse_eq_none_iff (names : Option (List String)) (r : Record α) :
+    tvParse names r = none ↔
+      r = [] ∨ ∃ f0 rest, r = f0 :: rest ∧
+        (parsePeerId names f0 = none ∨ ∃ f1 rest', rest = f1 :: rest' ∧ f1.float = none) := by
+  unfold tvParse
+  cases r with
+  | nil => simp
+  | cons f0 rest =>
+    simp only [reduceCtorEq, List.cons.injEq, false_or]
+    cases h0 : parsePeerId names f0 with
+    | none => simp only [true_iff]; exact ⟨f0, rest, ⟨rfl, rfl⟩, Or.inl h0⟩
+    | some i =>
+      cases rest with
+      | nil =>
+        simp only [reduceCtorEq, false_iff]
+        rintro ⟨g0, rest, ⟨rfl, rfl⟩, h | ⟨_, _, h, _⟩⟩
+        · rw [h0] at h; cases h
+        · cases h
+      | cons f1 rest' =>
+        simp only
+        constructor
+        · intro h
+          refine ⟨f0, f1 :: rest', ⟨rfl, rfl⟩, Or.inr ⟨f1, rest', rfl, ?_⟩⟩
+          cases hf : f1.float with
+          | none => rfl
+          | some v => rw [hf] at h; cases h
+        · rintro ⟨g0, rest, ⟨rfl, rfl⟩, h | ⟨g1, _, h, hf⟩⟩
+          · rw [h0] at h; cases h
+          · cases h
+            rw [hf]; rfl
+
+theorem lt_cooDim {coos : List (Coo α)} {c : Coo α} (hc : c ∈ coos) :
+    c.row < cooDim coos ∧ c.col < cooDim coos := by
+  have := foldl_max_ge_mem (fun e : Coo α => max (e.row + 1) (e.col + 1)) coos 0 hc
+  unfold cooDim
+  omega
+
+theorem cooDim_attained {coos : List (Coo α)} (h : coos ≠ []) :
+    ∃ c ∈ coos, c.row + 1 = cooDim coos ∨ c.col + 1 = cooDim coos := by
+  rcases foldl_max_attained (fun e : Coo α => max (e.row + 1) (e.col + 1)) coos 0 with h0 | ⟨x, hx, hx'⟩
+  · cases coos with
+    | nil => exact absurd rfl h
+    | cons c cs =>
+      have := foldl_max_ge_mem (fun e : Coo α => max (e.row + 1) (e.col + 1)) (c :: cs) 0
+        (List.mem_cons_self)
+      rw [h0] at this
+      omega
+  · refine ⟨x, hx, ?_⟩
+    unfold cooDim
+    rw [hx']
+    omega
+
+theorem lt_entDim {es : List (Entry α)} {e : Entry α} (he : e ∈ es) : e.idx < entDim es := by
+  have := foldl_max_ge_mem (fun e : Entry α => e.idx + 1) es 0 he
+  unfold entDim
+  omega
+
+theorem entDim_attained {es : List (Entry α)} (h : es ≠ []) :
+    ∃ e ∈ es, e.idx + 1 = entDim es := by
+  rcases foldl_max_attained (fun e : Entry α => e.idx + 1) es 0 with h0 | ⟨x, hx, hx'⟩
+  · cases es with
+    | nil => exact absurd rfl h
+    | cons c cs =>
+      have := foldl_max_ge_mem (fun e : Entry α => e.idx + 1) (c :: cs) 0 (List.mem_cons_self)
+      rw [h0] at this
+      omega
+  · exact ⟨x, hx, hx'.symm⟩
+
+/-! ### panic guards: stored column indices in range, for any `Scalar` -/
+
+/-- all stored column indices of a row table are below `n` -/
+def ColsIn (n : Nat) (rows : List (Row α)) : Prop := ∀ r ∈ rows, ∀ e ∈ r, e.idx < n
+
+/-- the precondition of `Transpose` (and of every later resize): stored column indices are
+    below the minor dimension and the invisible part of the row table holds only nil rows -/
+def Guarded (m : CSM α) : Prop := ColsIn m.minor m.rows ∧ ∀ r ∈ m.hidden, r = []
+
+/-- every stored index of a vector is below its dimension -/
+def VecIn (v : Vec α) : Prop := ∀ e ∈ v.entries, e.idx < v.dim
+
+theorem colsInRange_iff (m : CSM α) : m.colsInRange = true ↔ ColsIn m.minor m.rows := by
+  unfold CSM.colsInRange ColsIn
+  simp only [List.all_eq_true, decide_eq_true_eq]
+
+theorem Guarded.colsInRange {m : CSM α} (h : Guarded m) : m.colsInRange = true :=
+  (colsInRange_iff m).mpr h.1
+
+theorem ColsIn.mono {n n' : Nat} {rows : List (Row α)} (h : ColsIn n rows) (hn : n ≤ n') :
+    ColsIn n' rows := fun r hr e he => Nat.lt_of_lt_of_le (h r hr e he) hn
+
+theorem colsIn_nil (n : Nat) : ColsIn n ([] : List (Row α)) := fun _ hr => by cases hr
+
+theorem guarded_empty : Guarded (CSM.empty : CSM α) :=
+  ⟨colsIn_nil _, fun _ hr => by cases hr⟩
+
+theorem mem_modify {β : Type} {l : List β} {i : Nat} {f : β → β} {x : β}
+    (h : x ∈ l.modify i f) : x ∈ l ∨ ∃ y ∈ l, x = f y := by
+  induction l generalizing i with
+  | nil => simp at h
+  | cons a l ih =>
+    cases i with
+    | zero =>
+      rw [List.modify_zero_cons] at h
+      rcases List.mem_cons.mp h with rfl | h
+      · exact Or.inr ⟨a, by simp, rfl⟩
+      · exact Or.inl (by simp [h])
+    | succ i =>
+      rw [List.modify_succ_cons] at h
+      rcases List.mem_cons.mp h with rfl | h
+      · exact Or.inl (by simp)
+      · rcases ih h with h | ⟨y, hy, rfl⟩
+        · exact Or.inl (by simp [h])
+        · exact Or.inr ⟨y, by simp [hy], rfl⟩
+
+theorem insertByIdx_perm (e : Entry α) (l : List (Entry α)) : (insertByIdx e l).Perm (e :: l) := by
+  induction l with
+  | nil => exact List.Perm.refl _
+  | cons x xs ih =>
+    unfold insertByIdx
+    split
+    · exact List.Perm.refl _
+    · exact (ih.cons x).trans (List.Perm.swap e x xs)
+
+theorem sortByIdx_perm (l : List (Entry α)) : (sortByIdx l).Perm l := by
+  induction l with
+  | nil => exact List.Perm.refl _
+  | cons e l ih =>
+    show (insertByIdx e (sortByIdx l)).Perm (e :: l)
+    exact (insertByIdx_perm e _).trans (ih.cons e)
+
+/-- every entry stored by `NewCSRMatrix` comes from a coordinate entry that was not skipped -/
+theorem mem_newCSR {rows cols : Nat} {es : List (Coo α)} {inc : Bool} {r : Row α} {x : Entry α}
+    (hr : r ∈ (CSM.newCSR rows cols es inc).rows) (hx : x ∈ r) :
+    ∃ c ∈ es, x = ⟨c.col, c.val⟩ := by
+  unfold CSM.newCSR at hr
+  simp only [List.mem_map] at hr
+  obtain ⟨r0, hr0, rfl⟩ := hr
+  have hx0 : x ∈ r0 := (sortByIdx_perm r0).mem_iff.mp hx
+  -- invariant of the bucket pass
+  have inv : ∀ (l : List (Coo α)) (t : List (Row α)),
+      (∀ r ∈ t, ∀ x ∈ r, ∃ c ∈ es, x = ⟨c.col, c.val⟩) → (∀ c ∈ l, c ∈ es) →
+      ∀ r ∈ l.foldl (bucketCoo inc) t, ∀ x ∈ r, ∃ c ∈ es, x = ⟨c.col, c.val⟩ := by
+    intro l
+    induction l with
+    | nil => intro t ht _; exact ht
+    | cons c l ih =>
+      intro t ht hl
+      rw [List.foldl_cons]
+      apply ih
+      · intro r hr x hx
+        unfold bucketCoo at hr
+        split at hr
+        · exact ht r hr x hx
+        · rcases mem_modify hr with hr | ⟨y, hy, rfl⟩
+          · exact ht r hr x hx
+          · rcases List.mem_append.mp hx with hx | hx
+            · exact ht y hy x hx
+            · rw [List.mem_singleton] at hx
+              exact ⟨c, hl c (by simp), hx⟩
+      · intro c' hc'; exact hl c' (by simp [hc'])
+  refine inv es (List.replicate rows []) ?_ (fun c hc => hc) r0 hr0 x hx0
+  intro r hr x hx
+  rw [(List.mem_replicate.mp hr).2] at hx
+  cases hx
+
+/-- `NewCSRMatrix` with all column indices in range yields a guarded matrix -/
+theorem guarded_newCSR {rows cols : Nat} {es : List (Coo α)} {inc : Bool}
+    (h : ∀ c ∈ es, c.col < cols) : Guarded (CSM.newCSR rows cols es inc) := by
+  refine ⟨?_, fun r hr => by cases hr⟩
+  intro r hr x hx
+  obtain ⟨c, hc, rfl⟩ := mem_newCSR hr hx
+  exact h c hc
+
+theorem newCSR_major (rows cols : Nat) (es : List (Coo α)) (inc : Bool) :
+    (CSM.newCSR rows cols es inc).major = rows := rfl
+theorem newCSR_minor (rows cols : Nat) (es : List (Coo α)) (inc : Bool) :
+    (CSM.newCSR rows cols es inc).minor = cols := rfl
+
+/-! #### resizing -/
+
+theorem setMajorDim_major (M : CSM α) (d : Nat) : (M.setMajorDim d).major = d := by
+  unfold CSM.setMajorDim; simp only; split <;> rfl
+
+theorem setMajorDim_minor (M : CSM α) (d : Nat) : (M.setMajorDim d).minor = M.minor := by
+  unfold CSM.setMajorDim; simp only; split <;> rfl
+
+theorem guarded_setMajorDim {M : CSM α} (h : Guarded M) (d : Nat) : Guarded (M.setMajorDim d) := by
+  obtain ⟨hc, hh⟩ := h
+  unfold Guarded
+  rw [setMajorDim_minor]
+  unfold CSM.setMajorDim
+  simp only
+  split
+  · refine ⟨?_, fun r hr => by cases hr⟩
+    intro r hr x hx
+    rcases List.mem_append.mp hr with hr | hr
+    · exact hc r hr x hx
+    · rw [(List.mem_replicate.mp hr).2] at hx; cases hx
+  · refine ⟨?_, ?_⟩
+    · intro r hr x hx
+      rcases List.mem_append.mp (List.mem_of_mem_take hr) with hr | hr
+      · exact hc r hr x hx
+      · rw [hh r hr] at hx; cases hx
+    · intro r hr
+      simp only [List.mem_map] at hr
+      obtain ⟨⟨y, k⟩, hy, rfl⟩ := hr
+      simp only
+      split
+      · rfl
+      · rename_i hlt
+        have hy' := List.mk_mem_zipIdx_iff_getElem?.mp hy
+        rw [List.getElem?_drop, List.getElem?_append, if_neg hlt] at hy'
+        exact hh y (List.mem_iff_getElem?.mpr ⟨_, hy'⟩)
+
+theorem setMinorDim_major (M : CSM α) (d : Nat) : (M.setMinorDim d).major = M.major := by
+  unfold CSM.setMinorDim; split <;> rfl
+
+theorem setMinorDim_minor (M : CSM α) (d : Nat) : (M.setMinorDim d).minor = d := by
+  unfold CSM.setMinorDim; split <;> rfl
+
+theorem guarded_setMinorDim {M : CSM α} (h : Guarded M) (d : Nat) : Guarded (M.setMinorDim d) := by
+  obtain ⟨hc, hh⟩ := h
+  unfold Guarded
+  rw [setMinorDim_minor]
+  unfold CSM.setMinorDim
+  split
+  · refine ⟨?_, hh⟩
+    intro r hr x hx
+    simp only [List.mem_map] at hr
+    obtain ⟨r0, _, rfl⟩ := hr
+    have := List.mem_takeWhile_imp hx
+    simpa using this
+  · rename_i hd
+    exact ⟨hc.mono (by omega), hh⟩
+
+theorem setDim_major (M : CSM α) (r c : Nat) : (M.setDim r c).major = r := by
+  unfold CSM.setDim; rw [setMinorDim_major, setMajorDim_major]
+
+theorem setDim_minor (M : CSM α) (r c : Nat) : (M.setDim r c).minor = c := by
+  unfold CSM.setDim; rw [setMinorDim_minor]
+
+theorem guarded_setDim {M : CSM α} (h : Guarded M) (r c : Nat) : Guarded (M.setDim r c) :=
+  guarded_setMinorDim (guarded_setMajorDim h r) c
+
+/-! #### merging -/
+
+theorem mem_mergeSpan {s1 s2 : List (Entry α)} {x : Entry α} (h : x ∈ mergeSpan s1 s2) :
+    x ∈ s1 ∨ x ∈ s2 := by
+  fun_induction mergeSpan s1 s2 with
+  | case1 s1 => exact Or.inl h
+  | case2 s2 _ => exact Or.inr h
+  | case3 a s1 b s2 hlt ih =>
+    rcases List.mem_cons.mp h with rfl | h
+    · exact Or.inl (by simp)
+    · rcases ih h with h | h
+      · exact Or.inl (by simp [h])
+      · exact Or.inr h
+  | case4 a s1 b s2 h1 h2 hz ih =>
+    rcases List.mem_cons.mp h with rfl | h
+    · exact Or.inr (by simp)
+    · rcases ih h with h | h
+      · exact Or.inl h
+      · exact Or.inr (by simp [h])
+  | case5 a s1 b s2 h1 h2 hz ih =>
+    rcases ih h with h | h
+    · exact Or.inl h
+    · exact Or.inr (by simp [h])
+  | case6 a s1 b s2 h1 h2 hz ih =>
+    rcases List.mem_cons.mp h with rfl | h
+    · exact Or.inr (by simp)
+    · rcases ih h with h | h
+      · exact Or.inl (by simp [h])
+      · exact Or.inr (by simp [h])
+  | case7 a s1 b s2 h1 h2 hz ih =>
+    rcases ih h with h | h
+    · exact Or.inl (by simp [h])
+    · exact Or.inr (by simp [h])
+
+theorem colsIn_mergeRows {n : Nat} {t1 t2 : List (Row α)} (h1 : ColsIn n t1) (h2 : ColsIn n t2) :
+    ColsIn n (mergeRows t1 t2) := by
+  fun_induction mergeRows t1 t2 with
+  | case1 r1 t1 r2 t2 ih =>
+    intro r hr x hx
+    rcases List.mem_cons.mp hr with rfl | hr
+    · rcases mem_mergeSpan hx with hx | hx
+      · exact h1 r1 (by simp) x hx
+      · exact h2 r2 (by simp) x hx
+    · exact ih (fun r hr => h1 r (by simp [hr])) (fun r hr => h2 r (by simp [hr])) r hr x hx
+  | case2 t1 => exact h1
+  | case3 t2 _ => exact colsIn_nil n
+
+theorem merge_major (A B : CSM α) : (A.merge B).1.major = max A.major B.major := by
+  unfold CSM.merge; simp only; rw [setMinorDim_major, setMajorDim_major]
+
+theorem merge_minor (A B : CSM α) : (A.merge B).1.minor = max A.minor B.minor := by
+  unfold CSM.merge; simp only; rw [setMinorDim_minor]
+
+/-- `CSMatrix.Merge` keeps the guard -/
+theorem guarded_merge {A B : CSM α} (hA : Guarded A) (hB : ColsIn B.minor B.rows) :
+    Guarded (A.merge B).1 := by
+  have h := guarded_setMinorDim (guarded_setMajorDim hA (max A.major B.major))
+    (max A.minor B.minor)
+  unfold Guarded at h ⊢
+  rw [merge_minor]
+  rw [setMinorDim_minor] at h
+  unfold CSM.merge
+  simp only
+  exact ⟨colsIn_mergeRows h.1 (hB.mono (Nat.le_max_right _ _)), h.2⟩
+
+/-! #### vectors -/
+
+theorem vecIn_setDim {v : Vec α} (h : VecIn v) (d : Nat) : VecIn (v.setDim d) := by
+  unfold Vec.setDim VecIn
+  split
+  · intro e he
+    have := List.mem_takeWhile_imp he
+    simpa using this
+  · rename_i hd
+    intro e he
+    have := h e he
+    simp only at he ⊢
+    omega
+
+theorem vec_setDim_dim (v : Vec α) (d : Nat) : (v.setDim d).dim = d := by
+  unfold Vec.setDim; split <;> rfl
+
+theorem vecIn_new {dim : Nat} {es : List (Entry α)} (h : ∀ e ∈ es, e.idx < dim) :
+    VecIn (Vec.new dim es) := by
+  intro e he
+  exact h e ((sortByIdx_perm es).mem_iff.mp he)
+
+theorem vecIn_merge {v v2 : Vec α} (h : VecIn v) (h2 : VecIn v2) : VecIn (v.merge v2).1 := by
+  unfold Vec.merge
+  simp only
+  have h' := vecIn_setDim h (max v.dim v2.dim)
+  intro e he
+  simp only at he ⊢
+  rw [vec_setDim_dim]
+  rcases mem_mergeSpan he with he | he
+  · have := h' e he; rw [vec_setDim_dim] at this; exact this
+  · have := h2 e he
+    have := Nat.le_max_right v.dim v2.dim
+    omega
+
+/-! #### canonicalisation and distrust extraction -/
+
+theorem canonicalize_idx {es es' : List (Entry α)} (h : canonicalize es = .ok es') {x : Entry α}
+    (hx : x ∈ es') : ∃ y ∈ es, y.idx = x.idx := by
+  unfold canonicalize at h
+  simp only at h
+  split at h
+  · cases h
+  · cases h
+    simp only [List.mem_map] at hx
+    obtain ⟨y, hy, rfl⟩ := hx
+    exact ⟨y, hy, rfl⟩
+
+theorem vecIn_canonTV {v : Vec α} (h : VecIn v) : VecIn (canonicalizeTrustVector v) := by
+  unfold canonicalizeTrustVector
+  split
+  · rename_i es hes
+    intro x hx
+    obtain ⟨y, hy, hyx⟩ := canonicalize_idx hes hx
+    have := h y hy
+    simp only
+    omega
+  · intro x hx
+    simp only [uniformEntries, List.mem_map, List.mem_range] at hx
+    obtain ⟨i, hi, rfl⟩ := hx
+    exact hi
+
+theorem canonTV_dim (v : Vec α) : (canonicalizeTrustVector v).dim = v.dim := by
+  unfold canonicalizeTrustVector; split <;> rfl
+
+theorem mem_canonRow {p : Option (Vec α)} {r : Row α} {x : Entry α} (hx : x ∈ canonRow p r) :
+    (∃ y ∈ r, y.idx = x.idx) ∨ ∃ pv, p = some pv ∧ x ∈ pv.entries := by
+  unfold canonRow at hx
+  split at hx
+  · rename_i r' hr'
+    exact Or.inl (canonicalize_idx hr' hx)
+  · split at hx
+    · exact Or.inr ⟨_, rfl, hx⟩
+    · exact Or.inl ⟨x, hx, rfl⟩
+
+/-- `CanonicalizeLocalTrust` keeps the guard (a substituted pre-trust row has its indices below
+    the common dimension, which the function checks) -/
+theorem guarded_canonLT {m m' : CSM α} {p : Option (Vec α)} (hm : Guarded m)
+    (hp : ∀ pv, p = some pv → VecIn pv) (h : canonicalizeLocalTrust m p = .ok m') :
+    Guarded m' ∧ m'.major = m.major ∧ m'.minor = m.minor ∧ m.major = m.minor ∧
+      ∀ pv, p = some pv → pv.dim = m.major := by
+  unfold canonicalizeLocalTrust CSM.dim at h
+  split at h
+  · cases h
+  · rename_i n hn
+    split at hn
+    · cases hn
+    · rename_i hsq
+      have hsq : m.major = m.minor := by simpa using hsq
+      cases hn
+      have key : (∀ pv, p = some pv → pv.dim = m.major) ∧
+          m' = { m with rows := m.rows.map (canonRow p) } := by
+        cases p with
+        | none =>
+          simp only [Bool.false_eq_true, if_false, Except.ok.injEq] at h
+          exact ⟨fun pv hpv => (by cases hpv), h.symm⟩
+        | some pv =>
+          simp only [ne_eq, decide_not, Bool.not_eq_eq_eq_not, Bool.not_true,
+            decide_eq_false_iff_not, ite_not] at h
+          split at h
+          · rename_i hd
+            cases h
+            exact ⟨fun pv' hpv' => (by cases hpv'; exact hd.symm), rfl⟩
+          · cases h
+      obtain ⟨hpd, rfl⟩ := key
+      refine ⟨⟨?_, hm.2⟩, rfl, rfl, hsq, hpd⟩
+      intro r hr x hx
+      simp only [List.mem_map] at hr
+      obtain ⟨r0, hr0, rfl⟩ := hr
+      simp only
+      rcases mem_canonRow hx with ⟨y, hy, hyx⟩ | ⟨pv, hpv, hx⟩
+      · have := hm.1 r0 hr0 y hy; omega
+      · have := hp pv hpv x hx
+        rw [hpd pv hpv, hsq] at this
+        exact this
+
+/-- `ExtractDistrust` keeps the guard on both results -/
+theorem guarded_extractDistrust {m c d : CSM α} (hm : Guarded m)
+    (h : extractDistrust m = .ok (c, d)) :
+    Guarded c ∧ Guarded d ∧ c.major = m.major ∧ c.minor = m.minor ∧ d.major = m.major ∧
+      d.minor = m.major ∧ m.major = m.minor := by
+  unfold extractDistrust CSM.dim at h
+  split at h
+  · cases h
+  · rename_i n hn
+    split at hn
+    · cases hn
+    · rename_i hsq
+      have hsq : m.major = m.minor := by simpa using hsq
+      cases hn
+      simp only [Except.ok.injEq, Prod.mk.injEq] at h
+      obtain ⟨rfl, rfl⟩ := h
+      refine ⟨⟨?_, hm.2⟩, ⟨?_, fun r hr => by cases hr⟩, rfl, rfl, rfl, rfl, hsq⟩
+      · intro r hr x hx
+        simp only [List.map_map, List.mem_map, Function.comp] at hr
+        obtain ⟨r0, hr0, rfl⟩ := hr
+        simp only [splitRow, List.mem_filter] at hx
+        exact hm.1 r0 hr0 x hx.1
+      · intro r hr x hx
+        simp only [List.map_map, List.mem_map, Function.comp] at hr
+        obtain ⟨r0, hr0, rfl⟩ := hr
+        simp only [splitRow, List.mem_map, List.mem_filter] at hx
+        obtain ⟨y, ⟨hy, _⟩, rfl⟩ := hx
+        have := hm.1 r0 hr0 y hy
+        simp only
+        omega
+
+/-! ### OpenAPI front-end -/
+
+section oapi
+open EtVerif.Oapi
+
+/-- the coordinate entries `loadInlineTrustMatrix` hands to `NewCSRMatrix` -/
+def cooOfI (m : IMatrix α) : List (Coo α) := m.entries.map fun (i, j, v) => ⟨i.toNat, j.toNat, v⟩
+
+/-- the entries `loadInlineTrustVector` hands to `NewVector` -/
+def entOfI (v : IVector α) : List (Entry α) := v.entries.map fun (i, x) => ⟨i.toNat, x⟩
+
+/-- a successful inline matrix load: the exact `NewCSRMatrix` call, all indices in range -/
+theorem loadInlineMatrix_some {m : IMatrix α} {c : CSM α} (h : loadInlineMatrix m = some c) :
+    0 < m.size ∧ c = CSM.newCSR m.size.toNat m.size.toNat (cooOfI m) false ∧
+      ∀ e ∈ cooOfI m, e.row < m.size.toNat ∧ e.col < m.size.toNat := by
+  unfold loadInlineMatrix at h
+  split at h
+  · cases h
+  · rename_i hs
+    split at h
+    · rename_i hall
+      cases h
+      refine ⟨by omega, rfl, ?_⟩
+      intro e he
+      simp only [cooOfI, List.mem_map] at he
+      obtain ⟨⟨i, j, v⟩, hm, rfl⟩ := he
+      have := List.all_eq_true.mp hall _ hm
+      simp only [Bool.and_eq_true, decide_eq_true_eq] at this
+      simp only
+      omega
+    · cases h
+
+/-- an inline matrix is refused when its size is not positive or an index is out of range -/
+theorem loadInlineMatrix_none {m : IMatrix α}
+    (h : m.size ≤ 0 ∨ ∃ e ∈ m.entries, e.1 < 0 ∨ m.size ≤ e.1 ∨ e.2.1 < 0 ∨ m.size ≤ e.2.1) :
+    loadInlineMatrix m = none := by
+  unfold loadInlineMatrix
+  split
+  · rfl
+  · rename_i hs
+    rcases h with h | ⟨e, he, hbad⟩
+    · exact absurd h hs
+    · rw [if_neg]
+      intro hall
+      have := List.all_eq_true.mp hall e he
+      obtain ⟨i, j, v⟩ := e
+      simp only [Bool.and_eq_true, decide_eq_true_eq] at this
+      simp only at hbad
+      omega
+
+theorem loadInlineVector_some {v : IVector α} {p : Vec α} (h : loadInlineVector v = some p) :
+    0 < v.size ∧ p = Vec.new v.size.toNat (entOfI v) ∧ ∀ e ∈ entOfI v, e.idx < v.size.toNat := by
+  unfold loadInlineVector at h
+  split at h
+  · cases h
+  · rename_i hs
+    split at h
+    · rename_i hall
+      cases h
+      refine ⟨by omega, rfl, ?_⟩
+      intro e he
+      simp only [entOfI, List.mem_map] at he
+      obtain ⟨⟨i, x⟩, hm, rfl⟩ := he
+      have := List.all_eq_true.mp hall _ hm
+      simp only [Bool.and_eq_true, decide_eq_true_eq] at this
+      simp only
+      omega
+    · cases h
+
+theorem loadInlineVector_none {v : IVector α}
+    (h : v.size ≤ 0 ∨ ∃ e ∈ v.entries, e.1 < 0 ∨ v.size ≤ e.1 ∨ le e.2 zero = true) :
+    loadInlineVector v = none := by
+  unfold loadInlineVector
+  split
+  · rfl
+  · rename_i hs
+    rcases h with h | ⟨e, he, hbad⟩
+    · exact absurd h hs
+    · rw [if_neg]
+      intro hall
+      have := List.all_eq_true.mp hall e he
+      obtain ⟨i, x⟩ := e
+      simp only [Bool.and_eq_true, decide_eq_true_eq, Bool.not_eq_true'] at this
+      simp only at hbad
+      rcases hbad with hb | hb | hb
+      · omega
+      · omega
+      · rw [this.2] at hb; cases hb
+
+theorem guarded_loadInlineMatrix {m : IMatrix α} {c : CSM α} (h : loadInlineMatrix m = some c) :
+    Guarded c := by
+  obtain ⟨_, rfl, hr⟩ := loadInlineMatrix_some h
+  exact guarded_newCSR (fun e he => (hr e he).2)
+
+theorem vecIn_loadInlineVector {v : IVector α} {p : Vec α} (h : loadInlineVector v = some p) :
+    VecIn p := by
+  obtain ⟨_, rfl, hr⟩ := loadInlineVector_some h
+  exact vecIn_new hr
+
+/-- store invariant of the OpenAPI front-end: every stored matrix is guarded -/
+def OStoreInv (s : Store α) : Prop := ∀ p ∈ s, Guarded p.2
+
+theorem store_get?_mem {s : Store α} {id : String} {M : CSM α} (h : s.get? id = some M) :
+    ∃ p ∈ s, p.2 = M := by
+  unfold Store.get? at h
+  cases hf : s.find? (·.1 == id) with
+  | none => rw [hf] at h; cases h
+  | some p =>
+    rw [hf] at h
+    simp only [Option.map_some, Option.some.injEq] at h
+    exact ⟨p, List.mem_of_find?_eq_some hf, h⟩
+
+theorem OStoreInv.get {s : Store α} (h : OStoreInv s) {id : String} {M : CSM α}
+    (hg : s.get? id = some M) : Guarded M := by
+  obtain ⟨p, hp, rfl⟩ := store_get?_mem hg
+  exact h p hp
+
+theorem OStoreInv.set {s : Store α} (h : OStoreInv s) (id : String) {M : CSM α} (hM : Guarded M) :
+    OStoreInv (s.set id M) := by
+  intro p hp
+  unfold Store.set at hp
+  rcases List.mem_cons.mp hp with rfl | hp
+  · exact hM
+  · exact h p (List.mem_filter.mp hp).1
+
+theorem OStoreInv.erase {s : Store α} (h : OStoreInv s) (id : String) : OStoreInv (s.erase id) := by
+  intro p hp
+  exact h p (List.mem_filter.mp hp).1
+
+theorem guarded_loadMatrix {s : Store α} (hs : OStoreInv s) {ref : MatrixRef α} {c : CSM α}
+    (h : loadMatrix s ref = some c) : Guarded c := by
+  cases ref with
+  | inline m => exact guarded_loadInlineMatrix h
+  | stored id => exact hs.get h
+  | objectStorage _ => cases h
+  | unknown _ => cases h
+
+theorem vecIn_loadVector {ref : VectorRef α} {p : Vec α} (h : loadVector ref = some p) :
+    VecIn p := by
+  cases ref with
+  | inline v => exact vecIn_loadInlineVector h
+  | objectStorage _ => cases h
+  | unknown _ => cases h
+
+/-- every `/local-trust` request keeps the store invariant -/
+theorem handleStore_inv {s : Store α} (hs : OStoreInv s) (req : StoreReq α) :
+    OStoreInv (handleStore s req).1 := by
+  cases req with
+  | put id merge body =>
+    simp only [handleStore]
+    split
+    · exact hs
+    · rename_i c hl
+      have hc := guarded_loadMatrix hs hl
+      split
+      · exact hs.set id hc
+      · rename_i old hg
+        split
+        · exact hs.set id (guarded_merge (hs.get hg) hc.1)
+        · exact hs.set id hc
+  | get id =>
+    simp only [handleStore]
+    split <;> exact hs
+  | head id => exact hs
+  | delete id =>
+    simp only [handleStore]
+    split
+    · exact hs.erase id
+    · exact hs
+
+/-! #### the restructured form of `prepare` -/
+
+/-- loading of an optional vector reference: `none` = loader error -/
+def loadOptVec : Option (VectorRef α) → Option (Option (Vec α))
+  | none => some none
+  | some ref => (loadVector ref).map some
+
+/-- alignment with the pre-trust (openapi.go 81-98) -/
+def alignPre (c0 : CSM α) : Option (Vec α) → CSM α × Vec α × Nat
+  | none => (c0, Vec.new c0.major [], c0.major)
+  | some p =>
+    if p.dim < c0.major then (c0, p.setDim c0.major, c0.major)
+    else if c0.major < p.dim then (c0.setDim p.dim p.dim, p, p.dim)
+    else (c0, p, c0.major)
+
+/-- alignment with the initial trust (openapi.go 103-125) -/
+def alignInit (x : CSM α × Vec α × Nat) : Option (Vec α) → CSM α × Vec α × Option (Vec α) × Nat
+  | none => (x.1, x.2.1, none, x.2.2)
+  | some t0 =>
+    if t0.dim < x.2.2 then (x.1, x.2.1, some (t0.setDim x.2.2), x.2.2)
+    else if x.2.2 < t0.dim then (x.1.setDim t0.dim t0.dim, x.2.1.setDim t0.dim, some t0, t0.dim)
+    else (x.1, x.2.1, some t0, x.2.2)
+
+/-- the `alpha` / `epsilon` guards (openapi.go 126-145) fail -/
+def guardA (r : ComputeReq α) : Bool :=
+  !(match r.alpha with | some a => !(lt a zero || lt one a) | none => true) ||
+   !(match r.epsilon with | some e => !(le e zero || lt one e) | none => true)
+
+/-- the iteration-option guards fail -/
+def guardB (r : ComputeReq α) : Bool :=
+  optBad r.flatTail 0 || optBad r.numLeaders 0 || optBad r.maxIterations 0 ||
+    optBad r.minIterations 1 || optBad r.checkFreq 1
+
+/-- canonicalisation and distrust extraction (openapi.go 161-187) -/
+def finish (k : Consts α) (r : ComputeReq α) (x : CSM α × Vec α × Option (Vec α) × Nat) :
+    Option (Effective α) :=
+  let a := r.alpha.getD k.half
+  let e := r.epsilon.getD (div k.epsNum (ofNat x.2.2.2))
+  let p3 := canonicalizeTrustVector x.2.1
+  let t3 := x.2.2.1.map canonicalizeTrustVector
+  match extractDistrust x.1 with
+  | .error _ => none
+  | .ok (c3, d3) =>
+    match canonicalizeLocalTrust c3 (some p3), canonicalizeLocalTrust d3 none with
+    | .ok c4, .ok d4 =>
+      some { c := c4, p := p3, t0 := t3, discounts := d4, a := a, e := e,
+             opts := { t0 := t3, flatTail := (r.flatTail.getD 0).toNat,
+                       numLeaders := (r.numLeaders.getD 0).toNat,
+                       maxIterations := r.maxIterations, minIterations := r.minIterations,
+                       checkFreq := r.checkFreq } }
+    | _, _ => none
+
+theorem prepare_eq (k : Consts α) (s : Store α) (r : ComputeReq α) :
+    prepare k s r =
+      match loadMatrix s r.localTrust, loadOptVec r.preTrust, loadOptVec r.initialTrust with
+      | some c0, some pOpt, some tOpt =>
+        if guardA r then none else if guardB r then none
+        else finish k r (alignInit (alignPre c0 pOpt) tOpt)
+      | _, _, _ => none := by
+  obtain ⟨lt, it, pt, al, ep, ft, nl, mx, mn, cf⟩ := r
+  unfold prepare
+  simp only
+  cases h1 : loadMatrix s lt with
+  | none => rfl
+  | some c0 =>
+    cases pt with
+    | none =>
+      cases it with
+      | none =>
+        simp only [loadOptVec]
+        rfl
+      | some tref =>
+        simp only [loadOptVec]
+        cases h3 : loadVector tref with
+        | none => rfl
+        | some t0 =>
+          simp only [Option.map_some]
+          rfl
+    | some pref =>
+      cases it with
+      | none =>
+        simp only [loadOptVec]
+        cases h2 : loadVector pref with
+        | none => rfl
+        | some p => rfl
+      | some tref =>
+        simp only [loadOptVec]
+        cases h2 : loadVector pref with
+        | none => cases loadVector tref <;> rfl
+        | some p =>
+          cases h3 : loadVector tref with
+          | none => rfl
+          | some t0 => rfl
+
+theorem loadOptVec_vecIn {o : Option (VectorRef α)} {po : Option (Vec α)}
+    (h : loadOptVec o = some po) : ∀ p, po = some p → VecIn p := by
+  intro p hp
+  subst hp
+  cases o with
+  | none => cases h
+  | some ref =>
+    simp only [loadOptVec] at h
+    cases hl : loadVector ref with
+    | none => rw [hl] at h; cases h
+    | some q =>
+      rw [hl] at h
+      simp only [Option.map_some, Option.some.injEq] at h
+      subst h
+      exact vecIn_loadVector hl
+
+theorem alignPre_guard {c0 : CSM α} (hc : Guarded c0) {po : Option (Vec α)}
+    (hp : ∀ p, po = some p → VecIn p) :
+    Guarded (alignPre c0 po).1 ∧ VecIn (alignPre c0 po).2.1 := by
+  cases po with
+  | none => exact ⟨hc, vecIn_new (fun e he => by cases he)⟩
+  | some p =>
+    have hp := hp p rfl
+    simp only [alignPre]
+    split
+    · exact ⟨hc, vecIn_setDim hp _⟩
+    · split
+      · exact ⟨guarded_setDim hc _ _, hp⟩
+      · exact ⟨hc, hp⟩
+
+theorem alignInit_guard {x : CSM α × Vec α × Nat} (hc : Guarded x.1) (hp : VecIn x.2.1)
+    {tOpt : Option (Vec α)} (ht : ∀ t, tOpt = some t → VecIn t) :
+    Guarded (alignInit x tOpt).1 ∧ VecIn (alignInit x tOpt).2.1 ∧
+      ∀ t, (alignInit x tOpt).2.2.1 = some t → VecIn t := by
+  cases tOpt with
+  | none => exact ⟨hc, hp, fun t h => by cases h⟩
+  | some t0 =>
+    have ht := ht t0 rfl
+    simp only [alignInit]
+    split
+    · exact ⟨hc, hp, fun t h => by cases h; exact vecIn_setDim ht _⟩
+    · split
+      · exact ⟨guarded_setDim hc _ _, vecIn_setDim hp _, fun t h => by cases h; exact ht⟩
+      · exact ⟨hc, hp, fun t h => by cases h; exact ht⟩
+
+/-- the outcome of `finish` -/
+theorem finish_some {k : Consts α} {r : ComputeReq α} {x : CSM α × Vec α × Option (Vec α) × Nat}
+    {eff : Effective α} (h : finish k r x = some eff) :
+    ∃ c3 d3, extractDistrust x.1 = .ok (c3, d3) ∧
+      canonicalizeLocalTrust c3 (some (canonicalizeTrustVector x.2.1)) = .ok eff.c ∧
+      canonicalizeLocalTrust d3 none = .ok eff.discounts ∧
+      eff.p = canonicalizeTrustVector x.2.1 ∧ eff.t0 = x.2.2.1.map canonicalizeTrustVector ∧
+      eff.opts.t0 = eff.t0 ∧ eff.opts.maxIterations = r.maxIterations ∧
+      eff.opts.minIterations = r.minIterations ∧ eff.opts.checkFreq = r.checkFreq ∧
+      eff.opts.resultDim = none ∧ eff.a = r.alpha.getD k.half := by
+  unfold finish at h
+  simp only at h
+  split at h
+  · cases h
+  · rename_i c3 d3 hx
+    split at h
+    · rename_i c4 d4 h4 h5
+      cases h
+      exact ⟨c3, d3, hx, h4, h5, rfl, rfl, rfl, rfl, rfl, rfl, rfl, rfl⟩
+    · cases h
+
+theorem prepare_some {k : Consts α} {s : Store α} {r : ComputeReq α} {eff : Effective α}
+    (h : prepare k s r = some eff) :
+    ∃ c0 pOpt tOpt, loadMatrix s r.localTrust = some c0 ∧ loadOptVec r.preTrust = some pOpt ∧
+      loadOptVec r.initialTrust = some tOpt ∧ guardA r = false ∧ guardB r = false ∧
+      finish k r (alignInit (alignPre c0 pOpt) tOpt) = some eff := by
+  rw [prepare_eq] at h
+  split at h
+  · rename_i c0 pOpt tOpt h1 h2 h3
+    split at h
+    · cases h
+    · split at h
+      · cases h
+      · rename_i ha hb
+        exact ⟨c0, pOpt, tOpt, h1, h2, h3, by simpa using ha, by simpa using hb, h⟩
+  · cases h
+
+/-- the matrix and vectors handed to `basic.Compute` by the OpenAPI handler are guarded -/
+theorem prepare_guard {k : Consts α} {s : Store α} (hs : OStoreInv s) {r : ComputeReq α}
+    {eff : Effective α} (h : prepare k s r = some eff) :
+    Guarded eff.c ∧ Guarded eff.discounts ∧ VecIn eff.p ∧ (∀ t, eff.t0 = some t → VecIn t) ∧
+      eff.discounts.minor = eff.c.major ∧ eff.opts.t0 = eff.t0 ∧
+      eff.opts.maxIterations = r.maxIterations := by
+  obtain ⟨c0, pOpt, tOpt, h1, h2, h3, _, _, hf⟩ := prepare_some h
+  obtain ⟨g1, v1⟩ := alignPre_guard (guarded_loadMatrix hs h1) (loadOptVec_vecIn h2)
+  obtain ⟨g2, v2, v3⟩ := alignInit_guard (x := alignPre c0 pOpt) g1 v1 (loadOptVec_vecIn h3)
+  obtain ⟨c3, d3, hx, h4, h5, hp, ht, hot, hmx, _⟩ := finish_some hf
+  obtain ⟨gc, gd, e1, e2, e3, e4, e5⟩ := guarded_extractDistrust g2 hx
+  have vp := vecIn_canonTV v2
+  obtain ⟨gc4, m1, m2, _⟩ := guarded_canonLT gc (fun pv hpv => by cases hpv; exact vp) h4
+  obtain ⟨gd4, n1, n2, _⟩ := guarded_canonLT gd (fun pv hpv => by cases hpv) h5
+  refine ⟨gc4, gd4, by rw [hp]; exact vp, ?_, by rw [n2, m1, e4, e1], hot, hmx⟩
+  intro t htt
+  rw [ht] at htt
+  cases hto : (alignInit (alignPre c0 pOpt) tOpt).2.2.1 with
+  | none => rw [hto] at htt; cases htt
+  | some t' =>
+    rw [hto] at htt
+    simp only [Option.map_some, Option.some.injEq] at htt
+    subst htt
+    exact vecIn_canonTV (v3 t' hto)
+
+end oapi
+
+/-! ### the result of `compute` / `discountTrustVector` has its indices in range -/
+
+theorem scaleEntries_idx {a : α} {es : List (Entry α)} {x : Entry α} (hx : x ∈ scaleEntries a es) :
+    ∃ y ∈ es, y.idx = x.idx := by
+  unfold scaleEntries at hx
+  split at hx
+  · exact ⟨x, hx, rfl⟩
+  · simp only [List.mem_filterMap] at hx
+    obtain ⟨y, hy, h⟩ := hx
+    split at h
+    · cases h
+    · cases h; exact ⟨y, hy, rfl⟩
+
+theorem vecScale_idx {a : α} {v : Vec α} {x : Entry α} (hx : x ∈ (Vec.scale a v).entries) :
+    ∃ y ∈ v.entries, y.idx = x.idx := by
+  unfold Vec.scale at hx
+  split at hx
+  · cases hx
+  · exact scaleEntries_idx hx
+
+theorem mulVecEntries_idx {rows : List (Row α)} {v : List (Entry α)} {x : Entry α}
+    (hx : x ∈ mulVecEntries rows v) : x.idx < rows.length := by
+  unfold mulVecEntries at hx
+  simp only [List.mem_filterMap] at hx
+  obtain ⟨⟨r, i⟩, hri, h⟩ := hx
+  have hi := List.mk_mem_zipIdx_iff_getElem?.mp hri
+  have hlt : i < rows.length := by
+    by_contra hge
+    rw [List.getElem?_eq_none_iff.mpr (by omega)] at hi
+    cases hi
+  simp only at h
+  split at h
+  · cases h
+  · cases h; exact hlt
+
+theorem stepEntries_idx {n : Nat} {ct : List (Row α)} (hct : ct.length ≤ n) {ap : List (Entry α)}
+    (hap : ∀ x ∈ ap, x.idx < n) (q : α) (t : List (Entry α)) :
+    ∀ x ∈ stepEntries ct ap q t, x.idx < n := by
+  intro x hx
+  unfold stepEntries at hx
+  simp only at hx
+  obtain ⟨y, hy | hy, hyx⟩ := idx_mem_addEntries hx
+  · split at hy
+    · cases hy
+    · obtain ⟨z, hz, hzy⟩ := scaleEntries_idx hy
+      have := mulVecEntries_idx hz
+      omega
+  · have := hap y hy; omega
+
+theorem iterate_idx {n : Nat} {ct : List (Row α)} (hct : ct.length ≤ n) {ap : List (Entry α)}
+    (hap : ∀ x ∈ ap, x.idx < n) (q : α) {t0 : List (Entry α)} (ht0 : ∀ x ∈ t0, x.idx < n)
+    (k : Nat) : ∀ x ∈ iterate ct ap q k t0, x.idx < n := by
+  induction k with
+  | zero => exact ht0
+  | succ k ih =>
+    unfold iterate
+    rw [Function.iterate_succ_apply']
+    exact stepEntries_idx hct hap q _
+
+theorem scatterRow_length (t : List (Row α)) (i : Nat) (r : Row α) :
+    (scatterRow t i r).length = t.length := by
+  unfold scatterRow
+  induction r generalizing t with
+  | nil => rfl
+  | cons e r ih => rw [List.foldl_cons, ih, List.length_modify]
+
+theorem transpose_length (M : CSM α) : M.transpose.rows.length = M.minor := by
+  unfold CSM.transpose
+  simp only
+  have : ∀ (l : List (Row α × Nat)) (t : List (Row α)),
+      (l.foldl (fun t (x : Row α × Nat) => scatterRow t x.2 x.1) t).length = t.length := by
+    intro l
+    induction l with
+    | nil => intro t; rfl
+    | cons x l ih => intro t; rw [List.foldl_cons, ih, scatterRow_length]
+  rw [this, List.length_replicate]
+
+/-- a successful `Compute` returns a vector whose stored indices are below its dimension -/
+theorem compute_vecIn {fuel : Nat} {c : CSM α} {p : Vec α} {a e : α} {o : ComputeOpts α}
+    {res : ComputeResult α} (h : compute fuel c p a e o = .ok res) (hp : VecIn p)
+    (ht0 : ∀ t0, o.t0 = some t0 → VecIn t0) : VecIn res.t ∧ res.t.dim = c.major := by
+  obtain ⟨hv, hrt, _⟩ := C05.compute_spec fuel c p a e o res h
+  obtain ⟨v1, v2, v3, v4, _⟩ := hv
+  rw [hrt]
+  refine ⟨?_, rfl⟩
+  intro x hx
+  simp only at hx ⊢
+  refine iterate_idx (n := c.major) ?_ ?_ _ ?_ _ x hx
+  · rw [transpose_length, v1]
+  · intro y hy
+    obtain ⟨z, hz, hzy⟩ := vecScale_idx hy
+    have := hp z hz
+    omega
+  · cases ho : o.t0 with
+    | none =>
+      intro y hy
+      simp only [Option.getD_none] at hy
+      have := hp y hy
+      omega
+    | some t0 =>
+      intro y hy
+      simp only [Option.getD_some] at hy
+      have := ht0 t0 ho y hy
+      rw [v4 t0 ho] at this
+      exact this
+
+theorem discountLoop_idx {n : Nat} (t1 : List (Entry α)) (rows : List (Row α × Nat))
+    (t : List (Entry α)) (hrows : ∀ p ∈ rows, ∀ x ∈ p.1, x.idx < n) (ht : ∀ x ∈ t, x.idx < n) :
+    ∀ x ∈ discountLoop t1 rows t, x.idx < n := by
+  fun_induction discountLoop t1 rows t with
+  | case1 _ t => exact ht
+  | case2 _ t _ => exact ht
+  | case3 s t1 row distruster rows t hlt ih => exact ih hrows ht
+  | case4 s t1 row rows t hlt ih =>
+    apply ih (fun p hp => hrows p (by simp [hp]))
+    intro x hx
+    obtain ⟨y, hy | hy, hyx⟩ := idx_mem_subEntries hx
+    · have := ht y hy; omega
+    · obtain ⟨z, hz, hzy⟩ := vecScale_idx hy
+      have := hrows (row, s.idx) (by simp) z hz
+      omega
+  | case5 s t1 row distruster rows t hlt hne ih =>
+    exact ih (fun p hp => hrows p (by simp [hp])) ht
+
+theorem discount_vecIn {t : Vec α} {d : CSM α} (ht : VecIn t) (hd : ColsIn t.dim d.rows) :
+    VecIn (discountTrustVector t d) ∧ (discountTrustVector t d).dim = t.dim := by
+  refine ⟨?_, rfl⟩
+  unfold discountTrustVector
+  intro x hx
+  refine discountLoop_idx (n := t.dim) _ _ _ ?_ ht x hx
+  intro p hp y hy
+  obtain ⟨r, i⟩ := p
+  exact hd r (List.mem_iff_getElem?.mpr ⟨i, List.mk_mem_zipIdx_iff_getElem?.mp hp⟩) y hy
+
+/-! ### gRPC front-end -/
+
+section grpc
+open EtVerif.Grpc
+
+theorem lookup_mem {β : Type} {l : List (String × β)} {id : String} {b : β}
+    (h : lookup l id = some b) : ∃ p ∈ l, p.2 = b := by
+  unfold lookup at h
+  cases hf : l.find? (·.1 == id) with
+  | none => rw [hf] at h; cases h
+  | some p =>
+    rw [hf] at h
+    simp only [Option.map_some, Option.some.injEq] at h
+    exact ⟨p, List.mem_of_find?_eq_some hf, h⟩
+
+theorem mem_store {β : Type} {l : List (String × β)} {id : String} {b : β} {p : String × β}
+    (h : p ∈ store l id b) : p = (id, b) ∨ p ∈ l := by
+  unfold store at h
+  rcases List.mem_cons.mp h with h | h
+  · exact Or.inl h
+  · exact Or.inr (List.mem_filter.mp h).1
+
+theorem mem_erase {β : Type} {l : List (String × β)} {id : String} {p : String × β}
+    (h : p ∈ erase l id) : p ∈ l := (List.mem_filter.mp h).1
+
+/-- the dimension `Update` gives its batch: highest row/column index + 1, squared -/
+def gDim (coos : List (Coo α)) : Nat :=
+  max (coos.foldl (fun r e => max r (e.row + 1)) 0) (coos.foldl (fun c e => max c (e.col + 1)) 0)
+
+theorem lt_gDim {coos : List (Coo α)} {c : Coo α} (hc : c ∈ coos) :
+    c.row < gDim coos ∧ c.col < gDim coos := by
+  have h1 := foldl_max_ge_mem (fun e : Coo α => e.row + 1) coos 0 hc
+  have h2 := foldl_max_ge_mem (fun e : Coo α => e.col + 1) coos 0 hc
+  unfold gDim
+  omega
+
+/-- the update `tmUpdate` stores on success -/
+def tmBatch (coos : List (Coo α)) : CSM α := CSM.newCSR (gDim coos) (gDim coos) coos true
+
+theorem tmUpdate_ok {s : GState α} {id : String} {ts : Nat} {entries : List (MEntry α)}
+    {tm : TM α} {coos : List (Coo α)} (hl : lookup s.mats id = some tm)
+    (hp : parseMEntries entries = .ok coos) :
+    tmUpdate s id ts entries =
+      ({ s with mats := store s.mats id ⟨(tm.m.merge (tmBatch coos)).1, max tm.ts ts⟩ }, .ok) := by
+  unfold tmUpdate
+  rw [hl]
+  simp only
+  rw [hp]
+  rfl
+
+theorem tmUpdate_notFound {s : GState α} {id : String} (ts : Nat) (entries : List (MEntry α))
+    (hl : lookup s.mats id = none) : tmUpdate s id ts entries = (s, .notFound) := by
+  unfold tmUpdate; rw [hl]
+
+theorem tmUpdate_error {s : GState α} {id : String} {ts : Nat} {entries : List (MEntry α)}
+    {tm : TM α} {c : Code} (hl : lookup s.mats id = some tm)
+    (hp : parseMEntries entries = .error c) : tmUpdate s id ts entries = (s, c) := by
+  unfold tmUpdate
+  rw [hl]
+  simp only
+  rw [hp]
+
+/-- the parsed batch: one coordinate entry per update entry, indices converted -/
+theorem parseMEntries_ok {entries : List (MEntry α)} {coos : List (Coo α)}
+    (h : parseMEntries entries = .ok coos) :
+    List.Forall₂ (fun (e : MEntry α) (c : Coo α) => ∃ i j : Int, e.truster = some i ∧
+      e.trustee = some j ∧ 0 ≤ i ∧ 0 ≤ j ∧ c = ⟨i.toNat, j.toNat, e.value⟩) entries coos := by
+  induction entries generalizing coos with
+  | nil =>
+    unfold parseMEntries at h
+    cases h
+    exact List.Forall₂.nil
+  | cons e es ih =>
+    unfold parseMEntries at h
+    split at h
+    · cases h
+    · rename_i i hi
+      split at h
+      · cases h
+      · rename_i j hj
+        split at h
+        · cases h
+        · rename_i hneg
+          split at h
+          · cases h
+          · rename_i rest hrest
+            cases h
+            refine List.Forall₂.cons ⟨i, j, hi, hj, ?_, ?_, rfl⟩ (ih hrest)
+            · simp only [Bool.or_eq_true, decide_eq_true_eq, not_or] at hneg; omega
+            · simp only [Bool.or_eq_true, decide_eq_true_eq, not_or] at hneg; omega
+
+/-- all indices are integer literals but one is negative: `InvalidArgument` -/
+theorem parseMEntries_negative {entries : List (MEntry α)}
+    (hint : ∀ e ∈ entries, e.truster ≠ none ∧ e.trustee ≠ none)
+    (hneg : ∃ e ∈ entries, (∃ i, e.truster = some i ∧ i < 0) ∨ ∃ j, e.trustee = some j ∧ j < 0) :
+    parseMEntries entries = .error .invalidArgument := by
+  induction entries with
+  | nil => obtain ⟨e, he, _⟩ := hneg; cases he
+  | cons e es ih =>
+    unfold parseMEntries
+    obtain ⟨h1, h2⟩ := hint e (by simp)
+    cases hi : e.truster with
+    | none => exact absurd hi h1
+    | some i =>
+      cases hj : e.trustee with
+      | none => exact absurd hj h2
+      | some j =>
+        simp only
+        split
+        · rfl
+        · rename_i hnn
+          simp only [Bool.or_eq_true, decide_eq_true_eq, not_or] at hnn
+          have : parseMEntries es = .error .invalidArgument := by
+            apply ih (fun e he => hint e (by simp [he]))
+            obtain ⟨e', he', hb⟩ := hneg
+            rcases List.mem_cons.mp he' with rfl | he'
+            · exfalso
+              rcases hb with ⟨i', hi', hlt⟩ | ⟨j', hj', hlt⟩
+              · rw [hi] at hi'; cases hi'; omega
+              · rw [hj] at hj'; cases hj'; omega
+            · exact ⟨e', he', hb⟩
+          rw [this]
+
+theorem parseVEntries_ok {entries : List (VEntry α)} {es : List (Entry α)}
+    (h : parseVEntries entries = .ok es) :
+    List.Forall₂ (fun (e : VEntry α) (c : Entry α) => ∃ i : Int, e.trustee = some i ∧
+      0 ≤ i ∧ c = ⟨i.toNat, e.value⟩) entries es := by
+  induction entries generalizing es with
+  | nil =>
+    unfold parseVEntries at h
+    cases h
+    exact List.Forall₂.nil
+  | cons e es' ih =>
+    unfold parseVEntries at h
+    split at h
+    · cases h
+    · rename_i i hi
+      split at h
+      · cases h
+      · rename_i hneg
+        split at h
+        · cases h
+        · rename_i rest hrest
+          cases h
+          exact List.Forall₂.cons ⟨i, hi, by omega, rfl⟩ (ih hrest)
+
+theorem parseVEntries_negative {entries : List (VEntry α)}
+    (hint : ∀ e ∈ entries, e.trustee ≠ none)
+    (hneg : ∃ e ∈ entries, ∃ i, e.trustee = some i ∧ i < 0) :
+    parseVEntries entries = .error .invalidArgument := by
+  induction entries with
+  | nil => obtain ⟨e, he, _⟩ := hneg; cases he
+  | cons e es ih =>
+    unfold parseVEntries
+    have h1 := hint e (by simp)
+    cases hi : e.trustee with
+    | none => exact absurd hi h1
+    | some i =>
+      simp only
+      split
+      · rfl
+      · rename_i hnn
+        have : parseVEntries es = .error .invalidArgument := by
+          apply ih (fun e he => hint e (by simp [he]))
+          obtain ⟨e', he', i', hi', hlt⟩ := hneg
+          rcases List.mem_cons.mp he' with rfl | he'
+          · exfalso
+            rw [hi] at hi'; cases hi'; omega
+          · exact ⟨e', he', i', hi', hlt⟩
+        rw [this]
+
+theorem tvUpdate_ok {s : GState α} {id : String} {ts : Nat} {entries : List (VEntry α)}
+    {tv : TV α} {es : List (Entry α)} (hl : lookup s.vecs id = some tv)
+    (hp : parseVEntries entries = .ok es) :
+    tvUpdate s id ts entries =
+      ({ s with vecs := store s.vecs id ⟨(tv.v.merge (Vec.new (entDim es) es)).1, max tv.ts ts⟩ },
+        .ok) := by
+  unfold tvUpdate
+  rw [hl]
+  simp only
+  rw [hp]
+  rfl
+
+theorem tvUpdate_notFound {s : GState α} {id : String} (ts : Nat) (entries : List (VEntry α))
+    (hl : lookup s.vecs id = none) : tvUpdate s id ts entries = (s, .notFound) := by
+  unfold tvUpdate; rw [hl]
+
+theorem tvUpdate_error {s : GState α} {id : String} {ts : Nat} {entries : List (VEntry α)}
+    {tv : TV α} {c : Code} (hl : lookup s.vecs id = some tv)
+    (hp : parseVEntries entries = .error c) : tvUpdate s id ts entries = (s, c) := by
+  unfold tvUpdate
+  rw [hl]
+  simp only
+  rw [hp]
+
+/-- store invariant of the gRPC front-end: stored matrices are guarded, stored vectors have
+    their indices below their dimension -/
+def GInv (s : GState α) : Prop :=
+  (∀ p ∈ s.mats, Guarded p.2.m) ∧ (∀ p ∈ s.vecs, VecIn p.2.v)
+
+theorem ginv_init : GInv ({} : GState α) :=
+  ⟨fun _ h => (by cases h), fun _ h => (by cases h)⟩
+
+theorem GInv.mat {s : GState α} (h : GInv s) {id : String} {tm : TM α}
+    (hl : lookup s.mats id = some tm) : Guarded tm.m := by
+  obtain ⟨p, hp, rfl⟩ := lookup_mem hl
+  exact h.1 p hp
+
+theorem GInv.vec {s : GState α} (h : GInv s) {id : String} {tv : TV α}
+    (hl : lookup s.vecs id = some tv) : VecIn tv.v := by
+  obtain ⟨p, hp, rfl⟩ := lookup_mem hl
+  exact h.2 p hp
+
+theorem GInv.storeMat {s : GState α} (h : GInv s) (id : String) {tm : TM α} (hm : Guarded tm.m) :
+    GInv { s with mats := store s.mats id tm } := by
+  refine ⟨?_, h.2⟩
+  intro p hp
+  rcases mem_store hp with rfl | hp
+  · exact hm
+  · exact h.1 p hp
+
+theorem GInv.storeVec {s : GState α} (h : GInv s) (id : String) {tv : TV α} (hv : VecIn tv.v) :
+    GInv { s with vecs := store s.vecs id tv } := by
+  refine ⟨h.1, ?_⟩
+  intro p hp
+  rcases mem_store hp with rfl | hp
+  · exact hv
+  · exact h.2 p hp
+
+theorem guarded_tmBatch (coos : List (Coo α)) : Guarded (tmBatch coos) :=
+  guarded_newCSR (fun _ hc => (lt_gDim hc).2)
+
+theorem tmUpdate_inv {s : GState α} (h : GInv s) (id : String) (ts : Nat)
+    (entries : List (MEntry α)) : GInv (tmUpdate s id ts entries).1 := by
+  cases hl : lookup s.mats id with
+  | none => rw [tmUpdate_notFound ts entries hl]; exact h
+  | some tm =>
+    cases hp : parseMEntries entries with
+    | error c => rw [tmUpdate_error hl hp]; exact h
+    | ok coos =>
+      rw [tmUpdate_ok hl hp]
+      exact h.storeMat id (tm := ⟨_, _⟩) (guarded_merge (h.mat hl) (guarded_tmBatch coos).1)
+
+theorem tvUpdate_inv {s : GState α} (h : GInv s) (id : String) (ts : Nat)
+    (entries : List (VEntry α)) : GInv (tvUpdate s id ts entries).1 := by
+  cases hl : lookup s.vecs id with
+  | none => rw [tvUpdate_notFound ts entries hl]; exact h
+  | some tv =>
+    cases hp : parseVEntries entries with
+    | error c => rw [tvUpdate_error hl hp]; exact h
+    | ok es =>
+      rw [tvUpdate_ok hl hp]
+      exact h.storeVec id (tv := ⟨_, _⟩)
+        (vecIn_merge (h.vec hl) (vecIn_new (fun e he => lt_entDim he)))
+
+theorem tmCreateNamed_inv {s : GState α} (h : GInv s) (id : String) :
+    GInv (tmCreateNamed s id).1 := by
+  unfold tmCreateNamed; split
+  · exact h
+  · exact h.storeMat id guarded_empty
+
+theorem tmCreateFresh_inv {s : GState α} (h : GInv s) (id : String) :
+    GInv (tmCreateFresh s id).1 := by
+  unfold tmCreateFresh; split
+  · exact h
+  · exact h.storeMat id guarded_empty
+
+theorem tmFlush_inv {s : GState α} (h : GInv s) (id : String) : GInv (tmFlush s id).1 := by
+  unfold tmFlush; split
+  · exact h
+  · exact h.storeMat id guarded_empty
+
+theorem tmDelete_inv {s : GState α} (h : GInv s) (id : String) : GInv (tmDelete s id).1 := by
+  unfold tmDelete; split
+  · exact ⟨fun p hp => h.1 p (mem_erase hp), h.2⟩
+  · exact h
+
+theorem tvCreateNamed_inv {s : GState α} (h : GInv s) (id : String) :
+    GInv (tvCreateNamed s id).1 := by
+  unfold tvCreateNamed; split
+  · exact h
+  · exact h.storeVec id (fun _ he => by cases he)
+
+theorem tvFlush_inv {s : GState α} (h : GInv s) (id : String) : GInv (tvFlush s id).1 := by
+  unfold tvFlush; split
+  · exact h
+  · exact h.storeVec id (fun _ he => by cases he)
+
+theorem tvDelete_inv {s : GState α} (h : GInv s) (id : String) : GInv (tvDelete s id).1 := by
+  unfold tvDelete; split
+  · exact ⟨h.1, fun p hp => h.2 p (mem_erase hp)⟩
+  · exact h
+
+/-! #### the staged form of `basicCompute` -/
+
+/-- the effective inputs of `BasicCompute` (compute.go 38-135) -/
+structure BcEff (α : Type) where
+  ltm : TM α
+  pre : Option (TV α)
+  gt : TV α
+  c2 : CSM α
+  p2 : Vec α
+  t2 : Vec α
+  c4 : CSM α
+  p3 : Vec α
+  t3 : Vec α
+  d4 : CSM α
+  a : α
+  e : α
+  ts2 : Nat
+
+def bcLoadPre (s : GState α) (q : Params α) : Option (Option (TV α)) :=
+  if q.preTrustId == "" then some none
+  else match lookup s.vecs q.preTrustId with
+    | none => none
+    | some pt => some (some pt)
+
+def bcAlignPre (c0 : CSM α) (ts0 : Nat) : Option (TV α) → CSM α × Vec α × Nat
+  | none => (c0, Vec.new c0.major [], ts0)
+  | some pt =>
+    if pt.v.dim < c0.major then (c0, pt.v.setDim c0.major, max ts0 pt.ts)
+    else if c0.major < pt.v.dim then (c0.setDim pt.v.dim pt.v.dim, pt.v, max ts0 pt.ts)
+    else (c0, pt.v, max ts0 pt.ts)
+
+def bcAlignGt (c1 : CSM α) (p1 : Vec α) (gt : TV α) : CSM α × Vec α × Vec α :=
+  if gt.v.dim < p1.dim then (c1, p1, gt.v.setDim p1.dim)
+  else if p1.dim < gt.v.dim then (c1.setDim gt.v.dim gt.v.dim, p1.setDim gt.v.dim, gt.v)
+  else (c1, p1, gt.v)
+
+def bcParamsOK (q : Params α) : Bool :=
+  (match q.alpha with | some a => !(lt a zero || lt one a) | none => true) &&
+  (match q.epsilon with | some e => !(le e zero || lt one e) | none => true)
+
+def bcFinish (k : Grpc.Consts α) (q : Params α) (ltm : TM α) (pre : Option (TV α)) (gt : TV α)
+    (c2 : CSM α) (p2 t2 : Vec α) (ts2 : Nat) : Except Code (BcEff α) :=
+  let p3 := canonicalizeTrustVector p2
+  let t3 := canonicalizeTrustVector t2
+  match extractDistrust c2 with
+  | .error _ => .error .internal
+  | .ok (c3, d3) =>
+    match canonicalizeLocalTrust c3 (some p3), canonicalizeLocalTrust d3 none with
+    | .ok c4, .ok d4 =>
+      .ok { ltm := ltm, pre := pre, gt := gt, c2 := c2, p2 := p2, t2 := t2, c4 := c4, p3 := p3,
+            t3 := t3, d4 := d4, a := q.alpha.getD k.half,
+            e := q.epsilon.getD (div k.epsNum (ofNat c2.major)), ts2 := ts2 }
+    | _, _ => .error .internal
+
+def bcPrep (k : Grpc.Consts α) (s : GState α) (q : Params α) : Except Code (BcEff α) :=
+  match lookup s.mats q.localTrustId with
+  | none => .error .notFound
+  | some ltm =>
+    if ltm.m.major ≠ ltm.m.minor then .error .internal else
+    match bcLoadPre s q with
+    | none => .error .notFound
+    | some preOpt =>
+      match lookup s.vecs q.globalTrustId with
+      | none => .error .notFound
+      | some gt =>
+        let x := bcAlignPre ltm.m ltm.ts preOpt
+        let y := bcAlignGt x.1 x.2.1 gt
+        if !bcParamsOK q then .error .invalidArgument
+        else bcFinish k q ltm preOpt gt y.1 y.2.1 y.2.2 (max x.2.2 gt.ts)
+
+def bcOpts (q : Params α) (E : BcEff α) : ComputeOpts α :=
+  { t0 := some E.t3, resultDim := some E.t3.dim,
+    maxIterations := if q.maxIterations = 0 then none else some (q.maxIterations : Int) }
+
+def bcWrite (s : GState α) (q : Params α) (E : BcEff α) (res : ComputeResult α) : GState α :=
+  let vecs1 :=
+    if q.positiveGlobalTrustId == "" then s.vecs
+    else match lookup s.vecs q.positiveGlobalTrustId with
+      | none => s.vecs
+      | some gtp => store s.vecs q.positiveGlobalTrustId ⟨res.t, max gtp.ts E.ts2⟩
+  let gtNow := (lookup vecs1 q.globalTrustId).getD E.gt
+  { s with vecs := store vecs1 q.globalTrustId ⟨discountTrustVector res.t E.d4, max gtNow.ts E.ts2⟩ }
+
+theorem basicCompute_eq (fuel : Nat) (k : Grpc.Consts α) (s : GState α) (q : Params α) :
+    basicCompute fuel k s (some q) =
+      match bcPrep k s q with
+      | .error c => (s, c)
+      | .ok E =>
+        match compute fuel E.c4 E.p3 E.a E.e (bcOpts q E) with
+        | .error _ => (s, .unavailable)
+        | .ok res => (bcWrite s q E res, .ok) := by
+  obtain ⟨lid, pid, al, ep, gid, mx, pos⟩ := q
+  unfold basicCompute bcPrep
+  simp only
+  cases h1 : lookup s.mats lid with
+  | none => rfl
+  | some ltm =>
+    simp only
+    by_cases hsq : ltm.m.major ≠ ltm.m.minor
+    · rw [if_pos hsq, if_pos hsq]
+    · rw [if_neg hsq, if_neg hsq]
+      unfold bcLoadPre
+      cases hp : (pid == "") with
+      | true =>
+        simp only [if_true]
+        cases hg : lookup s.vecs gid with
+        | none => rfl
+        | some gt =>
+          simp only [bcAlignPre]
+          generalize hy : bcAlignGt ltm.m (Vec.new ltm.m.major []) gt = y
+          unfold bcAlignGt at hy
+          simp only [hy]
+          cases al <;> cases ep <;> simp only [bcParamsOK, Bool.not_and]
+          all_goals
+            split
+            · rfl
+            · unfold bcFinish
+              simp only
+              cases hx : extractDistrust y.1 with
+              | error _ => rfl
+              | ok cd =>
+                obtain ⟨c3, d3⟩ := cd
+                simp only
+                cases h4 : canonicalizeLocalTrust c3 (some (canonicalizeTrustVector y.2.1)) <;>
+                  cases h5 : canonicalizeLocalTrust d3 none <;> rfl
+      | false =>
+        simp only [Bool.false_eq_true, if_false]
+        cases hpt : lookup s.vecs pid with
+        | none => rfl
+        | some pt =>
+          simp only
+          cases hg : lookup s.vecs gid with
+          | none => rfl
+          | some gt =>
+            simp only
+            generalize hx : bcAlignPre ltm.m ltm.ts (some pt) = x
+            simp only [bcAlignPre] at hx
+            simp only [hx]
+            generalize hy : bcAlignGt x.1 x.2.1 gt = y
+            unfold bcAlignGt at hy
+            simp only [hy]
+            cases al <;> cases ep <;> simp only [bcParamsOK, Bool.not_and]
+            all_goals
+              split
+              · rfl
+              · unfold bcFinish
+                simp only
+                cases hxd : extractDistrust y.1 with
+                | error _ => rfl
+                | ok cd =>
+                  obtain ⟨c3, d3⟩ := cd
+                  simp only
+                  cases h4 : canonicalizeLocalTrust c3 (some (canonicalizeTrustVector y.2.1)) <;>
+                    cases h5 : canonicalizeLocalTrust d3 none <;> rfl
+
+end grpc
+
+section grpc2
+open EtVerif.Grpc
+
+theorem bcLoadPre_vecIn {s : GState α} (h : GInv s) {q : Params α} {pre : Option (TV α)}
+    (hl : bcLoadPre s q = some pre) : ∀ pt, pre = some pt → VecIn pt.v := by
+  intro pt hpt
+  subst hpt
+  unfold bcLoadPre at hl
+  split at hl
+  · cases hl
+  · split at hl
+    · cases hl
+    · rename_i pt' hpt'
+      cases hl
+      exact h.vec hpt'
+
+theorem bcAlignPre_guard {c0 : CSM α} (hc : Guarded c0) (ts0 : Nat) {pre : Option (TV α)}
+    (hp : ∀ pt, pre = some pt → VecIn pt.v) :
+    Guarded (bcAlignPre c0 ts0 pre).1 ∧ VecIn (bcAlignPre c0 ts0 pre).2.1 := by
+  cases pre with
+  | none => exact ⟨hc, vecIn_new (fun e he => by cases he)⟩
+  | some pt =>
+    have hp := hp pt rfl
+    simp only [bcAlignPre]
+    split
+    · exact ⟨hc, vecIn_setDim hp _⟩
+    · split
+      · exact ⟨guarded_setDim hc _ _, hp⟩
+      · exact ⟨hc, hp⟩
+
+theorem bcAlignGt_guard {c1 : CSM α} (hc : Guarded c1) {p1 : Vec α} (hp : VecIn p1) {gt : TV α}
+    (hg : VecIn gt.v) :
+    Guarded (bcAlignGt c1 p1 gt).1 ∧ VecIn (bcAlignGt c1 p1 gt).2.1 ∧
+      VecIn (bcAlignGt c1 p1 gt).2.2 := by
+  unfold bcAlignGt
+  split
+  · exact ⟨hc, hp, vecIn_setDim hg _⟩
+  · split
+    · exact ⟨guarded_setDim hc _ _, vecIn_setDim hp _, hg⟩
+    · exact ⟨hc, hp, hg⟩
+
+theorem bcFinish_ok {k : Grpc.Consts α} {q : Params α} {ltm : TM α} {pre : Option (TV α)}
+    {gt : TV α} {c2 : CSM α} {p2 t2 : Vec α} {ts2 : Nat} {E : BcEff α}
+    (h : bcFinish k q ltm pre gt c2 p2 t2 ts2 = .ok E) :
+    ∃ c3 d3, extractDistrust c2 = .ok (c3, d3) ∧
+      canonicalizeLocalTrust c3 (some (canonicalizeTrustVector p2)) = .ok E.c4 ∧
+      canonicalizeLocalTrust d3 none = .ok E.d4 ∧ E.p3 = canonicalizeTrustVector p2 ∧
+      E.t3 = canonicalizeTrustVector t2 ∧ E.gt = gt ∧ E.ts2 = ts2 := by
+  unfold bcFinish at h
+  simp only at h
+  split at h
+  · cases h
+  · rename_i c3 d3 hx
+    split at h
+    · rename_i c4 d4 h4 h5
+      cases h
+      exact ⟨c3, d3, hx, h4, h5, rfl, rfl, rfl, rfl⟩
+    · cases h
+
+/-- everything `BasicCompute` hands to `basic.Compute` / `DiscountTrustVector` is guarded -/
+theorem bcPrep_guard {k : Grpc.Consts α} {s : GState α} (hs : GInv s) {q : Params α}
+    {E : BcEff α} (h : bcPrep k s q = .ok E) :
+    Guarded E.c4 ∧ Guarded E.d4 ∧ VecIn E.p3 ∧ VecIn E.t3 ∧ E.d4.minor = E.c4.major ∧
+      lookup s.vecs q.globalTrustId = some E.gt := by
+  unfold bcPrep at h
+  split at h
+  · cases h
+  · rename_i ltm hl
+    split at h
+    · cases h
+    · split at h
+      · cases h
+      · rename_i preOpt hpre
+        split at h
+        · cases h
+        · rename_i gt hgt
+          simp only at h
+          split at h
+          · cases h
+          · obtain ⟨g1, v1⟩ := bcAlignPre_guard (hs.mat hl) ltm.ts (bcLoadPre_vecIn hs hpre)
+            obtain ⟨g2, v2, v3⟩ := bcAlignGt_guard g1 v1 (hs.vec hgt)
+            obtain ⟨c3, d3, hx, h4, h5, hp3, ht3, hgt', _⟩ := bcFinish_ok h
+            obtain ⟨gc, gd, e1, e2, e3, e4, e5⟩ := guarded_extractDistrust g2 hx
+            have vp := vecIn_canonTV v2
+            obtain ⟨gc4, m1, m2, m3, _⟩ :=
+              guarded_canonLT gc (fun pv hpv => by cases hpv; exact vp) h4
+            obtain ⟨gd4, n1, n2, n3, _⟩ := guarded_canonLT gd (fun pv hpv => by cases hpv) h5
+            refine ⟨gc4, gd4, by rw [hp3]; exact vp, by rw [ht3]; exact vecIn_canonTV v3, ?_, ?_⟩
+            · rw [n2, m1, e4, e1]
+            · rw [hgt']; exact hgt
+
+theorem bcWrite_inv {s : GState α} (hs : GInv s) (q : Params α) (E : BcEff α)
+    (res : ComputeResult α) (h1 : VecIn res.t) (h2 : VecIn (discountTrustVector res.t E.d4)) :
+    GInv (bcWrite s q E res) := by
+  unfold bcWrite
+  simp only
+  have hv1 : ∀ p ∈ (if q.positiveGlobalTrustId == "" then s.vecs
+      else match lookup s.vecs q.positiveGlobalTrustId with
+        | none => s.vecs
+        | some gtp => store s.vecs q.positiveGlobalTrustId ⟨res.t, max gtp.ts E.ts2⟩),
+      VecIn p.2.v := by
+    split
+    · exact hs.2
+    · split
+      · exact hs.2
+      · intro p hp
+        rcases mem_store hp with rfl | hp
+        · exact h1
+        · exact hs.2 p hp
+  refine ⟨hs.1, ?_⟩
+  intro p hp
+  rcases mem_store hp with rfl | hp
+  · exact h2
+  · exact hv1 p hp
+
+/-- `BasicCompute` keeps the store invariant -/
+theorem basicCompute_inv {s : GState α} (hs : GInv s) (fuel : Nat) (k : Grpc.Consts α)
+    (params : Option (Params α)) : GInv (basicCompute fuel k s params).1 := by
+  cases params with
+  | none => exact hs
+  | some q =>
+    rw [basicCompute_eq]
+    cases hp : bcPrep k s q with
+    | error c => exact hs
+    | ok E =>
+      simp only
+      cases hc : compute fuel E.c4 E.p3 E.a E.e (bcOpts q E) with
+      | error _ => exact hs
+      | ok res =>
+        simp only
+        obtain ⟨gc4, gd4, vp, vt, hdm, _⟩ := bcPrep_guard hs hp
+        obtain ⟨hr, hrd⟩ := compute_vecIn hc vp (fun t0 ht0 => by
+          simp only [bcOpts, Option.some.injEq] at ht0; subst ht0; exact vt)
+        refine bcWrite_inv hs q E res hr (discount_vecIn hr ?_).1
+        rw [hrd, ← hdm]
+        exact gd4.1
+
+/-- whatever `BasicCompute` answers other than OK, the state is untouched -/
+theorem basicCompute_unchanged (fuel : Nat) (k : Grpc.Consts α) (s : GState α)
+    (params : Option (Params α)) (h : (basicCompute fuel k s params).2 ≠ .ok) :
+    (basicCompute fuel k s params).1 = s := by
+  cases params with
+  | none => rfl
+  | some q =>
+    rw [basicCompute_eq] at h ⊢
+    cases hp : bcPrep k s q with
+    | error c => rfl
+    | ok E =>
+      rw [hp] at h
+      simp only at h ⊢
+      cases hc : compute fuel E.c4 E.p3 E.a E.e (bcOpts q E) with
+      | error _ => rfl
+      | ok res => rw [hc] at h; exact absurd rfl h
+
+end grpc2
+
+/-! ### the playground -/
+
+/-- the optional names file: `none` = unreadable, `some none` = no file -/
+def loadNames (u : Upload α) : Option (Option (List String)) :=
+  match u.names with
+  | none => some none
+  | some recs => (readPeerNames recs []).map some
+
+/-- the dimension rule of `calculate` (engine.go 122-146) -/
+def alignDims (names : Option (List String)) (lt0 : CSM α) (pt0 : Vec α) :
+    Option (CSM α × Vec α) :=
+  match names with
+  | some ns =>
+    let n := ns.length
+    if lt0.major > n || pt0.dim > n then none
+    else some (if lt0.major < n then lt0.setDim n n else lt0,
+               if pt0.dim < n then pt0.setDim n else pt0)
+  | none =>
+    if lt0.major < pt0.dim then some (lt0.setDim pt0.dim pt0.dim, pt0)
+    else if pt0.dim < lt0.major then some (lt0, pt0.setDim lt0.major)
+    else some (lt0, pt0)
+
+/-- the displayed peer name -/
+def nameOf (names : Option (List String)) (i : Nat) : String :=
+  match names with
+  | some ns => ns.getD i ""
+  | none => s!"Peer {i}"
+
+/-- the unsorted result table -/
+def rowsOf (names : Option (List String)) (pt1 t : Vec α) : List (Fe.Row α) :=
+  (List.range pt1.dim).map fun i =>
+    ({ index := i, name := nameOf names i, score := denE t.entries i,
+       flagged := pt1.entries.any (·.idx == i) } : Fe.Row α)
+
+/-- every stage of a successful `calculate` -/
+theorem calculate_some {fuel : Nat} {hundred eps : α} {u : Upload α} {rows : List (Fe.Row α)}
+    (h : calculate fuel hundred eps u = some rows) :
+    ∃ hp names lt0 pt0 lt1 pt1 c d c' d' res,
+      u.hunchPercent = some hp ∧ 0 ≤ hp ∧ hp ≤ 100 ∧ loadNames u = some names ∧
+      readLocalTrust names u.localTrust = some lt0 ∧ readTrustVector names u.preTrust = some pt0 ∧
+      alignDims names lt0 pt0 = some (lt1, pt1) ∧ extractDistrust lt1 = .ok (c, d) ∧
+      canonicalizeLocalTrust c (some (canonicalizeTrustVector pt1)) = .ok c' ∧
+      canonicalizeLocalTrust d none = .ok d' ∧
+      compute fuel c' (canonicalizeTrustVector pt1) (div (ofNat hp.toNat) hundred) eps {} = .ok res ∧
+      rows = sortByScoreDesc (rowsOf names pt1 (discountTrustVector res.t d')) := by
+  unfold calculate at h
+  split at h
+  · cases h
+  · rename_i hp hhp
+    split at h
+    · cases h
+    · rename_i hrange
+      simp only [Bool.or_eq_true, decide_eq_true_eq, not_or] at hrange
+      simp only at h
+      split at h
+      · cases h
+      · rename_i names hnames
+        split at h
+        · rename_i lt0 pt0 hlt hpt
+          split at h
+          · cases h
+          · rename_i lt1 pt1 hal
+            split at h
+            · cases h
+            · rename_i c d hx
+              split at h
+              · rename_i c' d' hc hd
+                split at h
+                · cases h
+                · rename_i res hres
+                  cases h
+                  refine ⟨hp, names, lt0, pt0, lt1, pt1, c, d, c', d', res, hhp, by omega, by omega,
+                    hnames, hlt, hpt, ?_, hx, hc, hd, hres, rfl⟩
+                  rw [← hal]
+                  unfold alignDims
+                  cases names <;> rfl
+              · cases h
+        · cases h
+
+theorem insertByScoreDesc_perm (e : Fe.Row α) (l : List (Fe.Row α)) :
+    (insertByScoreDesc e l).Perm (e :: l) := by
+  induction l with
+  | nil => exact List.Perm.refl _
+  | cons x xs ih =>
+    unfold insertByScoreDesc
+    split
+    · exact List.Perm.refl _
+    · exact (ih.cons x).trans (List.Perm.swap e x xs)
+
+theorem sortByScoreDesc_perm (l : List (Fe.Row α)) : (sortByScoreDesc l).Perm l := by
+  induction l with
+  | nil => exact List.Perm.refl _
+  | cons e l ih =>
+    show (insertByScoreDesc e (sortByScoreDesc l)).Perm (e :: l)
+    exact (insertByScoreDesc_perm e _).trans (ih.cons e)
+
+theorem rowsOf_index (names : Option (List String)) (pt1 t : Vec α) :
+    (rowsOf names pt1 t).map (·.index) = List.range pt1.dim := by
+  unfold rowsOf
+  rw [List.map_map]
+  conv => rhs; rw [← List.map_id (List.range pt1.dim)]
+  rfl
+
+theorem mem_rowsOf {names : Option (List String)} {pt1 t : Vec α} {row : Fe.Row α}
+    (h : row ∈ rowsOf names pt1 t) :
+    row.index < pt1.dim ∧ row.name = nameOf names row.index ∧
+      row.score = denE t.entries row.index ∧
+      row.flagged = pt1.entries.any (·.idx == row.index) := by
+  unfold rowsOf at h
+  simp only [List.mem_map, List.mem_range] at h
+  obtain ⟨i, hi, rfl⟩ := h
+  exact ⟨hi, rfl, rfl, rfl⟩
+
+/-- the dimension rule -/
+theorem alignDims_some {names : Option (List String)} {lt0 lt1 : CSM α} {pt0 pt1 : Vec α}
+    (h : alignDims names lt0 pt0 = some (lt1, pt1)) :
+    pt1.entries = pt0.entries ∧
+    (match names with
+      | some ns => pt1.dim = ns.length ∧ lt0.major ≤ ns.length ∧ pt0.dim ≤ ns.length
+      | none => pt1.dim = max lt0.major pt0.dim) := by
+  unfold alignDims at h
+  cases names with
+  | some ns =>
+    simp only at h ⊢
+    split at h
+    · cases h
+    · rename_i hle
+      simp only [Bool.or_eq_true, decide_eq_true_eq, not_or] at hle
+      simp only [Option.some.injEq, Prod.mk.injEq] at h
+      obtain ⟨_, rfl⟩ := h
+      split
+      · rename_i hlt
+        unfold Vec.setDim
+        rw [if_neg (by omega)]
+        exact ⟨rfl, rfl, by omega, by omega⟩
+      · exact ⟨rfl, by omega, by omega, by omega⟩
+  | none =>
+    simp only at h ⊢
+    split at h
+    · rename_i hlt
+      cases h
+      exact ⟨rfl, by omega⟩
+    · split at h
+      · rename_i h1 h2
+        cases h
+        unfold Vec.setDim
+        rw [if_neg (by omega)]
+        exact ⟨rfl, by simp only; omega⟩
+      · rename_i h1 h2
+        cases h
+        exact ⟨rfl, by omega⟩
+
+section field
+variable {K : Type} [_root_.Field K] [LinearOrder K]
+
+theorem sorted_insertByScoreDesc (e : Fe.Row K) {l : List (Fe.Row K)}
+    (hl : l.Pairwise (fun a b => b.score ≤ a.score)) :
+    (insertByScoreDesc e l).Pairwise (fun a b => b.score ≤ a.score) := by
+  induction l with
+  | nil => exact List.pairwise_singleton _ _
+  | cons x xs ih =>
+    unfold insertByScoreDesc
+    simp only [s_lt, decide_eq_true_eq]
+    split
+    · rename_i hlt
+      refine List.pairwise_cons.mpr ⟨?_, hl⟩
+      intro y hy
+      rcases List.mem_cons.mp hy with rfl | hy
+      · exact le_of_lt hlt
+      · exact le_trans ((List.pairwise_cons.mp hl).1 y hy) (le_of_lt hlt)
+    · rename_i hlt
+      refine List.pairwise_cons.mpr ⟨?_, ih (List.pairwise_cons.mp hl).2⟩
+      intro y hy
+      rcases List.mem_cons.mp ((insertByScoreDesc_perm e xs).mem_iff.mp hy) with rfl | hy
+      · exact not_lt.mp hlt
+      · exact (List.pairwise_cons.mp hl).1 y hy
+
+/-- the result table is ordered by descending score -/
+theorem sorted_sortByScoreDesc (l : List (Fe.Row K)) :
+    (sortByScoreDesc l).Pairwise (fun a b => b.score ≤ a.score) := by
+  induction l with
+  | nil => exact List.Pairwise.nil
+  | cons e l ih => exact sorted_insertByScoreDesc e ih
+
+end field
+
+/-! ### running maxima over `Int` (inline sizes) -/
+
+theorem ifoldl_max_ge_init {γ : Type} (f : γ → Int) (l : List γ) (a : Int) :
+    a ≤ l.foldl (fun d e => max d (f e)) a := by
+  induction l generalizing a with
+  | nil => exact Int.le_refl _
+  | cons x l ih => exact Int.le_trans (Int.le_max_left _ _) (ih _)
+
+theorem ifoldl_max_ge_mem {γ : Type} (f : γ → Int) (l : List γ) (a : Int) {x : γ} (hx : x ∈ l) :
+    f x ≤ l.foldl (fun d e => max d (f e)) a := by
+  induction l generalizing a with
+  | nil => cases hx
+  | cons y l ih =>
+    rcases List.mem_cons.mp hx with rfl | hx
+    · exact Int.le_trans (Int.le_max_right _ _) (ifoldl_max_ge_init f l _)
+    · exact ih _ hx
+
+theorem ifoldl_max_attained {γ : Type} (f : γ → Int) (l : List γ) (a : Int) :
+    l.foldl (fun d e => max d (f e)) a = a ∨ ∃ x ∈ l, l.foldl (fun d e => max d (f e)) a = f x := by
+  induction l generalizing a with
+  | nil => left; rfl
+  | cons y l ih =>
+    rcases ih (max a (f y)) with h | ⟨x, hx, h⟩
+    · rw [List.foldl_cons, h]
+      rcases Int.le_total a (f y) with h1 | h1
+      · right; exact ⟨y, by simp, Int.max_eq_right h1⟩
+      · left; exact Int.max_eq_left h1
+    · right; exact ⟨x, by simp [hx], h⟩
+
+/-! ### exact sizes of the inline references built by the CLI -/
+
+/-- the inline size is the highest index used + 1 (so every index is in range and the bound is
+    attained) -/
+def MSizeExact (m : Oapi.IMatrix α) : Prop :=
+  (∀ e ∈ m.entries, e.1 < m.size ∧ e.2.1 < m.size) ∧
+    ∃ e ∈ m.entries, e.1 + 1 = m.size ∨ e.2.1 + 1 = m.size
+
+def VSizeExact (v : Oapi.IVector α) : Prop :=
+  (∀ e ∈ v.entries, e.1 < v.size) ∧ ∃ e ∈ v.entries, e.1 + 1 = v.size
+
+theorem mSizeExact_of_fold {m : Oapi.IMatrix α}
+    (h : m.size = m.entries.foldl (fun s e => max s (max (e.1 + 1) (e.2.1 + 1))) 0)
+    (h0 : m.size ≠ 0) : MSizeExact m := by
+  constructor
+  · intro e he
+    have := ifoldl_max_ge_mem (fun e : Int × Int × α => max (e.1 + 1) (e.2.1 + 1)) m.entries 0 he
+    rw [← h] at this
+    omega
+  · rcases ifoldl_max_attained (fun e : Int × Int × α => max (e.1 + 1) (e.2.1 + 1)) m.entries 0
+      with h1 | ⟨x, hx, h1⟩
+    · rw [← h] at h1; exact absurd h1 h0
+    · rw [← h] at h1
+      refine ⟨x, hx, ?_⟩
+      omega
+
+theorem vSizeExact_of_fold {v : Oapi.IVector α}
+    (h : v.size = v.entries.foldl (fun s e => max s (e.1 + 1)) 0) (h0 : v.size ≠ 0) :
+    VSizeExact v := by
+  constructor
+  · intro e he
+    have := ifoldl_max_ge_mem (fun e : Int × α => e.1 + 1) v.entries 0 he
+    rw [← h] at this
+    omega
+  · rcases ifoldl_max_attained (fun e : Int × α => e.1 + 1) v.entries 0 with h1 | ⟨x, hx, h1⟩
+    · rw [← h] at h1; exact absurd h1 h0
+    · rw [← h] at h1
+      exact ⟨x, hx, h1.symm⟩
+
+/-- what the request says about an optional trust-vector file -/
+def VecExact (raw hasHeader : Bool) (tbl : NameTable) (file : Option (List (Record α)))
+    (sent : Option (Oapi.IVector α)) : Prop :=
+  match file with
+  | none => sent = none
+  | some recs => ∃ v, sent = some v ∧
+      List.Forall₂ (VRel raw tbl) (dataRecs hasHeader recs) v.entries ∧ VSizeExact v
+
+theorem vecExact_of_load {raw hasHeader : Bool} {o : Option (List (Record α))}
+    {tbl tbl' tblF : NameTable} {ov : Option (Oapi.IVector α)}
+    (h : loadOptV raw hasHeader o tbl = some (ov, tbl')) (hp : tbl' <+: tblF) :
+    VecExact raw hasHeader tblF o ov := by
+  rcases loadOptV_spec h with ⟨rfl, rfl, _⟩ | ⟨recs, v, rfl, rfl, hl⟩
+  · rfl
+  · obtain ⟨_, _, hrel, hsz, h0⟩ := cliLoadVector_spec hl
+    refine ⟨v, rfl, ?_, vSizeExact_of_fold hsz h0⟩
+    refine List.Forall₂.imp ?_ hrel
+    rintro r e ⟨f0, rest, hr, hi, hlt, hv⟩
+    exact ⟨f0, rest, hr, hi.mono hp, hlt, hv⟩
+
+theorem forall₂_mem_left {β γ : Type} {R : β → γ → Prop} {l : List β} {l' : List γ}
+    (h : List.Forall₂ R l l') {a : β} (ha : a ∈ l) : ∃ b ∈ l', R a b := by
+  induction h with
+  | nil => cases ha
+  | cons hab _ ih =>
+    rcases List.mem_cons.mp ha with rfl | ha
+    · exact ⟨_, by simp, hab⟩
+    · obtain ⟨b, hb, hr⟩ := ih ha
+      exact ⟨b, by simp [hb], hr⟩
+
+theorem idxOf_raw_nonneg {tbl : NameTable} {f : Fe.Field α} {i : Int} (h : IdxOf true tbl f i) :
+    f.parseInt0 = some i ∧ 0 ≤ i := by
+  unfold IdxOf at h; simpa using h
+
+
+theorem forall₂_mem_right {β γ : Type} {R : β → γ → Prop} {l : List β} {l' : List γ}
+    (h : List.Forall₂ R l l') {b : γ} (hb : b ∈ l') : ∃ a ∈ l, R a b := by
+  induction h with
+  | nil => cases hb
+  | cons hab _ ih =>
+    rcases List.mem_cons.mp hb with rfl | hb
+    · exact ⟨_, by simp, hab⟩
+    · obtain ⟨a, ha, hr⟩ := ih hb
+      exact ⟨a, by simp [ha], hr⟩
+
+/-- the result of the local-trust reader, unpacked -/
+theorem readLocalTrust_some {names : Option (List String)} {recs : List (Record α)} {m : CSM α}
+    (h : readLocalTrust names recs = some m) :
+    ∃ coos, List.Forall₂ (ArcOf names) recs coos ∧
+      m = CSM.newCSR (cooDim coos) (cooDim coos) coos false := by
+  rw [readLocalTrust_eq] at h
+  cases hm : recs.mapM (ltParse names) with
+  | none => rw [hm] at h; cases h
+  | some coos =>
+    rw [hm] at h
+    simp only [Option.map_some, Option.some.injEq] at h
+    exact ⟨coos, List.Forall₂.imp (fun r c hrc => (ltParse_eq_some_iff names r c).mp hrc)
+      ((mapM_eq_some_iff _ _ _).mp hm), h.symm⟩
+
+theorem readTrustVector_some {names : Option (List String)} {recs : List (Record α)} {v : Vec α}
+    (h : readTrustVector names recs = some v) :
+    ∃ es, List.Forall₂ (EntOf names) recs es ∧ v = Vec.new (entDim es) es := by
+  rw [readTrustVector_eq] at h
+  cases hm : recs.mapM (tvParse names) with
+  | none => rw [hm] at h; cases h
+  | some es =>
+    rw [hm] at h
+    simp only [Option.map_some, Option.some.injEq] at h
+    exact ⟨es, List.Forall₂.imp (fun r c hrc => (tvParse_eq_some_iff names r c).mp hrc)
+      ((mapM_eq_some_iff _ _ _).mp hm), h.symm⟩
+
+theorem guarded_readLocalTrust {names : Option (List String)} {recs : List (Record α)} {m : CSM α}
+    (h : readLocalTrust names recs = some m) : Guarded m ∧ m.major = m.minor := by
+  obtain ⟨coos, _, rfl⟩ := readLocalTrust_some h
+  exact ⟨guarded_newCSR (fun _ hc => (lt_cooDim hc).2), rfl⟩
+
+theorem vecIn_readTrustVector {names : Option (List String)} {recs : List (Record α)} {v : Vec α}
+    (h : readTrustVector names recs = some v) : VecIn v := by
+  obtain ⟨es, _, rfl⟩ := readTrustVector_some h
+  exact vecIn_new (fun _ he => lt_entDim he)
+
+theorem alignDims_guard {names : Option (List String)} {lt0 lt1 : CSM α} {pt0 pt1 : Vec α}
+    (h : alignDims names lt0 pt0 = some (lt1, pt1)) (hl : Guarded lt0) (hp : VecIn pt0) :
+    Guarded lt1 ∧ VecIn pt1 := by
+  unfold alignDims at h
+  cases names with
+  | some ns =>
+    simp only at h
+    split at h
+    · cases h
+    · simp only [Option.some.injEq, Prod.mk.injEq] at h
+      obtain ⟨rfl, rfl⟩ := h
+      constructor
+      · split
+        · exact guarded_setDim hl _ _
+        · exact hl
+      · split
+        · exact vecIn_setDim hp _
+        · exact hp
+  | none =>
+    simp only at h
+    split at h
+    · cases h; exact ⟨guarded_setDim hl _ _, hp⟩
+    · split at h
+      · cases h; exact ⟨hl, vecIn_setDim hp _⟩
+      · cases h; exact ⟨hl, hp⟩
+
+/-! ### oapi `loadCsvTrustMatrix` / `loadCsvTrustVector` -/
+
+/-- the per-record parser of `loadCsvTrustMatrix` -/
+def ocmParse : Record α → Option (Coo α) := fun r =>
+  match r with
+  | [f0, f1, f2] =>
+    match f0.atoi, f1.atoi, f2.float with
+    | some i, some j, some v => if i < 0 || j < 0 then none else some ⟨i.toNat, j.toNat, v⟩
+    | _, _, _ => none
+  | _ => none
+
+/-- the per-record parser of `loadCsvTrustVector` -/
+def ocvParse : Record α → Option (Entry α) := fun r =>
+  match r with
+  | [f0, f1] =>
+    match f0.atoi, f1.float with
+    | some i, some v => if i < 0 then none else some ⟨i.toNat, v⟩
+    | _, _ => none
+  | _ => none
+
+theorem oapiCsvMatrix_eq (recs : List (Record α)) :
+    oapiCsvMatrix recs =
+      match recs with
+      | [] => none
+      | hdr :: body =>
+        if hdr.map (·.raw) != ["i", "j", "v"] then none
+        else (body.mapM ocmParse).map fun coos =>
+          CSM.newCSR (cooDim coos) (cooDim coos) coos false := by
+  unfold oapiCsvMatrix
+  cases recs with
+  | nil => rfl
+  | cons hdr body =>
+    simp only
+    split
+    · rfl
+    · change (match body.mapM ocmParse with | none => none | some coos => _) = _
+      cases body.mapM ocmParse <;> rfl
+
+theorem oapiCsvVector_eq (recs : List (Record α)) :
+    oapiCsvVector recs =
+      match recs with
+      | [] => none
+      | hdr :: body =>
+        if hdr.map (·.raw) != ["i", "v"] then none
+        else (body.mapM ocvParse).map fun es => Vec.new (entDim es) es := by
+  unfold oapiCsvVector
+  cases recs with
+  | nil => rfl
+  | cons hdr body =>
+    simp only
+    split
+    · rfl
+    · change (match body.mapM ocvParse with | none => none | some es => _) = _
+      cases body.mapM ocvParse <;> rfl
+
+/-- record `r` of an object-storage matrix CSV denotes the arc `c` -/
+def OcmArc (r : Record α) (c : Coo α) : Prop :=
+  ∃ (f0 f1 f2 : Fe.Field α) (i j : Int), r = [f0, f1, f2] ∧ f0.atoi = some i ∧ f1.atoi = some j ∧
+    f2.float = some c.val ∧ 0 ≤ i ∧ 0 ≤ j ∧ c.row = i.toNat ∧ c.col = j.toNat
+
+theorem ocmParse_eq_some_iff (r : Record α) (c : Coo α) : ocmParse r = some c ↔ OcmArc r c := by
+  obtain ⟨ci, cj, cv⟩ := c
+  unfold ocmParse OcmArc
+  constructor
+  · intro h
+    split at h
+    · rename_i f0 f1 f2
+      split at h
+      · rename_i i j v h0 h1 h2
+        split at h
+        · cases h
+        · rename_i hn
+          simp only [Bool.or_eq_true, decide_eq_true_eq, not_or] at hn
+          cases h
+          exact ⟨f0, f1, f2, i, j, rfl, h0, h1, h2, by omega, by omega, rfl, rfl⟩
+      · cases h
+    · cases h
+  · rintro ⟨f0, f1, f2, i, j, rfl, h0, h1, h2, hi, hj, hr, hc⟩
+    simp only at h2 hr hc ⊢
+    rw [h0, h1, h2]
+    simp only
+    rw [if_neg (by simp only [Bool.or_eq_true, decide_eq_true_eq, not_or]; omega), hr, hc]
+
+/-- a successful object-storage matrix load: header `i,j,v`, the exact `NewCSRMatrix` call -/
+theorem oapiCsvMatrix_some {recs : List (Record α)} {m : CSM α} (h : oapiCsvMatrix recs = some m) :
+    ∃ hdr body coos, recs = hdr :: body ∧ hdr.map (·.raw) = ["i", "j", "v"] ∧
+      List.Forall₂ OcmArc body coos ∧ m = CSM.newCSR (cooDim coos) (cooDim coos) coos false := by
+  rw [oapiCsvMatrix_eq] at h
+  cases recs with
+  | nil => cases h
+  | cons hdr body =>
+    simp only at h
+    split at h
+    · cases h
+    · rename_i hh
+      cases hm : body.mapM ocmParse with
+      | none => rw [hm] at h; cases h
+      | some coos =>
+        rw [hm] at h
+        simp only [Option.map_some, Option.some.injEq] at h
+        refine ⟨hdr, body, coos, rfl, by simpa using hh, ?_, h.symm⟩
+        exact List.Forall₂.imp (fun r c hrc => (ocmParse_eq_some_iff r c).mp hrc)
+          ((mapM_eq_some_iff _ _ _).mp hm)
+
+theorem guarded_oapiCsvMatrix {recs : List (Record α)} {m : CSM α}
+    (h : oapiCsvMatrix recs = some m) : Guarded m ∧ m.major = m.minor := by
+  obtain ⟨_, _, coos, _, _, _, rfl⟩ := oapiCsvMatrix_some h
+  exact ⟨guarded_newCSR (fun _ hc => (lt_cooDim hc).2), rfl⟩
+
+/-- a negative or non-integer index, a non-float value or a wrong field count is refused -/
+theorem oapiCsvMatrix_bad {hdr : Record α} {body : List (Record α)}
+    (h : ∃ r ∈ body, r.length ≠ 3 ∨ ∃ f0 f1 f2, r = [f0, f1, f2] ∧
+      ((∀ i, f0.atoi = some i → i < 0) ∨ (∀ j, f1.atoi = some j → j < 0) ∨ f2.float = none)) :
+    oapiCsvMatrix (hdr :: body) = none := by
+  cases hm : oapiCsvMatrix (hdr :: body) with
+  | none => rfl
+  | some m =>
+    exfalso
+    obtain ⟨hdr', body', coos, heq, _, hrel, _⟩ := oapiCsvMatrix_some hm
+    simp only [List.cons.injEq] at heq
+    obtain ⟨rfl, rfl⟩ := heq
+    obtain ⟨r, hr, hbad⟩ := h
+    obtain ⟨c, _, f0, f1, f2, i, j, rfl, h0, h1, h2, hi, hj, _⟩ := forall₂_mem_left hrel hr
+    rcases hbad with hl | ⟨g0, g1, g2, heq, hb⟩
+    · exact hl rfl
+    · simp only [List.cons.injEq, and_true] at heq
+      obtain ⟨rfl, rfl, rfl⟩ := heq
+      rcases hb with hb | hb | hb
+      · have := hb i h0; omega
+      · have := hb j h1; omega
+      · rw [hb] at h2; cases h2
+
+theorem vecIn_oapiCsvVector {recs : List (Record α)} {v : Vec α} (h : oapiCsvVector recs = some v) :
+    VecIn v := by
+  rw [oapiCsvVector_eq] at h
+  cases recs with
+  | nil => cases h
+  | cons hdr body =>
+    simp only at h
+    split at h
+    · cases h
+    · cases hm : body.mapM ocvParse with
+      | none => rw [hm] at h; cases h
+      | some es =>
+        rw [hm] at h
+        simp only [Option.map_some, Option.some.injEq] at h
+        subst h
+        exact vecIn_new (fun _ he => lt_entDim he)
+
+/-! ### the CLI loaders accept every well-formed file -/
+
+theorem getPeerIndex_isSome (raw : Bool) (tbl : NameTable) (f : Fe.Field α)
+    (h : raw = true → ∃ i, f.parseInt0 = some i ∧ 0 ≤ i) :
+    ∃ i tbl1, getPeerIndex raw tbl f = some (i, tbl1) ∧ ¬ i < 0 := by
+  cases raw with
+  | false =>
+    rw [getPeerIndex_name]
+    exact ⟨_, _, rfl, by omega⟩
+  | true =>
+    obtain ⟨i, hi, h0⟩ := h rfl
+    rw [getPeerIndex_raw, hi]
+    exact ⟨i, tbl, rfl, by omega⟩
+
+/-- a data record the matrix loader accepts (given a field count of 2 or 3) -/
+def GoodMRec (raw : Bool) (r : Record α) : Prop :=
+  (∀ f0 f1 f2, r = [f0, f1, f2] → f2.float ≠ none) ∧
+  (raw = true → ∀ f ∈ r.take 2, ∃ i, f.parseInt0 = some i ∧ 0 ≤ i)
+
+/-- a data record the vector loader accepts (given a field count of 1 or 2) -/
+def GoodVRec (raw : Bool) (r : Record α) : Prop :=
+  (∀ f0 f1, r = [f0, f1] → ∃ v, f1.float = some v ∧ lt v zero = false) ∧
+  (∀ f0, r = [f0] → lt (one : α) zero = false) ∧
+  (raw = true → ∀ f ∈ r.take 1, ∃ i, f.parseInt0 = some i ∧ 0 ≤ i)
+
+theorem loadM_go_isSome (raw : Bool) (recs : List (Record α)) (skip : Bool) (tbl : NameTable)
+    (size : Int) (acc : List (Int × Int × α))
+    (hlen : ∀ r ∈ recs, 2 ≤ r.length ∧ r.length ≤ 3)
+    (hgood : ∀ r ∈ dataRecs skip recs, GoodMRec raw r)
+    (hne : size ≠ 0 ∨ dataRecs skip recs ≠ []) :
+    ∃ x, cliLoadMatrix.go raw recs skip tbl size acc = some x := by
+  induction recs generalizing skip tbl size acc with
+  | nil =>
+    unfold cliLoadMatrix.go
+    have hs : size ≠ 0 := by
+      rcases hne with h | h
+      · exact h
+      · cases skip <;> exact absurd rfl h
+    rw [if_neg hs]
+    exact ⟨_, rfl⟩
+  | cons r rs ih =>
+    unfold cliLoadMatrix.go
+    have hl := hlen r (by simp)
+    rw [if_neg (by simp only [Bool.or_eq_true, decide_eq_true_eq, not_or]; omega)]
+    cases skip with
+    | true =>
+      simp only [if_true]
+      exact ih false tbl size acc (fun x hx => hlen x (by simp [hx])) hgood
+        (by rcases hne with h | h
+            · exact Or.inl h
+            · exact Or.inr h)
+    | false =>
+      simp only [Bool.false_eq_true, if_false]
+      obtain ⟨f0, r1, rfl⟩ := List.exists_cons_of_length_pos (l := r) (by omega)
+      obtain ⟨f1, rest, rfl⟩ := List.exists_cons_of_length_pos (l := r1)
+        (by simp only [List.length_cons] at hl; omega)
+      have hg := hgood (f0 :: f1 :: rest) (by simp [dataRecs])
+      obtain ⟨i, tbl1, hi, hi0⟩ := getPeerIndex_isSome raw tbl f0
+        (fun hr => hg.2 hr f0 (by simp))
+      obtain ⟨j, tbl2, hj, hj0⟩ := getPeerIndex_isSome raw tbl1 f1
+        (fun hr => hg.2 hr f1 (by simp))
+      simp only [hi, hj, if_neg hi0, if_neg hj0]
+      have hrest : rest = [] ∨ ∃ f2, rest = [f2] := by
+        cases rest with
+        | nil => exact Or.inl rfl
+        | cons f2 rest' =>
+          right
+          simp only [List.length_cons] at hl
+          exact ⟨f2, by rw [List.length_eq_zero_iff.mp (by omega : rest'.length = 0)]⟩
+      have hrec : ∀ v, ∃ x, cliLoadMatrix.go raw rs false tbl2 (max size (max (i + 1) (j + 1)))
+          ((i, j, v) :: acc) = some x := by
+        intro v
+        exact ih false tbl2 _ _ (fun x hx => hlen x (by simp [hx]))
+          (fun x hx => hgood x (by simp only [dataRecs_false] at hx ⊢; simp [hx]))
+          (Or.inl (by omega))
+      rcases hrest with rfl | ⟨f2, rfl⟩
+      · exact hrec one
+      · cases hf : f2.float with
+        | none => exact absurd hf (hg.1 f0 f1 f2 rfl)
+        | some v => simp only [hf]; exact hrec v
+
+theorem loadV_go_isSome (raw : Bool) (recs : List (Record α)) (skip : Bool) (tbl : NameTable)
+    (size : Int) (acc : List (Int × α))
+    (hlen : ∀ r ∈ recs, 1 ≤ r.length ∧ r.length ≤ 2)
+    (hgood : ∀ r ∈ dataRecs skip recs, GoodVRec raw r)
+    (hne : size ≠ 0 ∨ dataRecs skip recs ≠ []) :
+    ∃ x, cliLoadVector.go raw recs skip tbl size acc = some x := by
+  induction recs generalizing skip tbl size acc with
+  | nil =>
+    unfold cliLoadVector.go
+    have hs : size ≠ 0 := by
+      rcases hne with h | h
+      · exact h
+      · cases skip <;> exact absurd rfl h
+    rw [if_neg hs]
+    exact ⟨_, rfl⟩
+  | cons r rs ih =>
+    unfold cliLoadVector.go
+    have hl := hlen r (by simp)
+    rw [if_neg (by simp only [Bool.or_eq_true, decide_eq_true_eq, not_or]; omega)]
+    cases skip with
+    | true =>
+      simp only [if_true]
+      exact ih false tbl size acc (fun x hx => hlen x (by simp [hx])) hgood
+        (by rcases hne with h | h
+            · exact Or.inl h
+            · exact Or.inr h)
+    | false =>
+      simp only [Bool.false_eq_true, if_false]
+      obtain ⟨f0, rest, rfl⟩ := List.exists_cons_of_length_pos (l := r) (by omega)
+      have hg := hgood (f0 :: rest) (by simp [dataRecs])
+      obtain ⟨i, tbl1, hi, hi0⟩ := getPeerIndex_isSome raw tbl f0
+        (fun hr => hg.2.2 hr f0 (by simp))
+      simp only [hi, if_neg hi0]
+      have hrest : rest = [] ∨ ∃ f1, rest = [f1] := by
+        cases rest with
+        | nil => exact Or.inl rfl
+        | cons f1 rest' =>
+          right
+          simp only [List.length_cons] at hl
+          exact ⟨f1, by rw [List.length_eq_zero_iff.mp (by omega : rest'.length = 0)]⟩
+      have hrec : ∀ v, ∃ x, cliLoadVector.go raw rs false tbl1 (max size (i + 1))
+          ((i, v) :: acc) = some x := by
+        intro v
+        exact ih false tbl1 _ _ (fun x hx => hlen x (by simp [hx]))
+          (fun x hx => hgood x (by simp only [dataRecs_false] at hx ⊢; simp [hx]))
+          (Or.inl (by omega))
+      rcases hrest with rfl | ⟨f1, rfl⟩
+      · simp only
+        rw [if_neg (by rw [hg.2.1 f0 rfl]; simp)]
+        exact hrec one
+      · obtain ⟨v, hv, hlt⟩ := hg.1 f0 f1 rfl
+        simp only [hv]
+        rw [if_neg (by rw [hlt]; simp)]
+        exact hrec v
 
 end EtVerif.FeL
